@@ -36,9 +36,20 @@
 //! A, then set B, in every order, once / twice / back and forth); both are
 //! judged differentially against the plainly built object.
 //!
+//! A third sequence dimension is OBJECT-LEVEL HISTORY (`builder.sequences.*`,
+//! `object.history`): explicit-state exploration of every operation sequence
+//! of bounded length on each builder (every construction form, every mutator
+//! with elements chosen by their relation to what is inside, remove / clear,
+//! clone continuing on both, read accessors in between) and on each finished
+//! object (queries, caching calls, validations, clones), judged by the usual
+//! oracles plus a twin that only ever saw the final state and a tiny
+//! reference model of the content.
+//!
 //! `C05_ONLY=<space>[,<space>]` (cert, crl, sigobj, manifest, roa, aspa, csr,
-//! idcert, sigmsg, cms, forms, setters) restricts a run to some spaces while
-//! developing.
+//! idcert, sigmsg, cms, forms, setters, made, reissue, scale, chains,
+//! history, usage, sequences (or seq.aspa, seq.roa, seq.manifest, seq.crl,
+//! seq.resources, seq.cert, seq.sigobj, seq.ca_side), objhist) restricts a run to some
+//! spaces while developing.
 
 use std::collections::{BTreeMap, BTreeSet};
 use std::io;
@@ -448,6 +459,10 @@ struct CaseResult {
     der_hash: u64,
     /// things counted but not judged (see the space's rule text)
     counted: u64,
+    /// sequence spaces: hashes of the model states passed through, and the
+    /// number of operations applied
+    states: Vec<u64>,
+    transitions: u64,
 }
 impl CaseResult {
     fn fail(&mut self, oracle: &str, detail: impl Into<String>) { self.fails.push((oracle.to_string(), detail.into())) }
@@ -480,6 +495,8 @@ fn run_cases<C: Sync>(ctx: &Ctx, sp: &Space, obj: &str, cases: &[C],
     let mut hashes: BTreeSet<u64> = BTreeSet::new();
     let counted: u64 = results.iter().map(|r| r.counted).sum();
     if counted > 0 { sp.set("counted_not_judged", serde_json::json!(counted)) }
+    let states: BTreeSet<u64> = results.iter().flat_map(|r| r.states.iter().copied()).collect();
+    if !states.is_empty() { sp.states(states.len() as u64); sp.transitions(results.iter().map(|r| r.transitions).sum()); sp.traces(cases.len() as u64) }
     for (c, r) in cases.iter().zip(results.iter()) {
         *labels.entry(r.label.clone()).or_insert(0) += 1;
         if r.der_hash != 0 { hashes.insert(r.der_hash); }
@@ -3518,6 +3535,983 @@ fn space_usage(ctx: &Ctx, d: &Dom) {
     sp.done(true, &format!("{} checks", checks.len()));
 }
 
+//============ Operation sequences on every builder (`builder.sequences.*`) ===
+//
+// Explicit-state exploration, one space per builder: every sequence of at
+// most 3 (thorough: 4) operations after EVERY construction form (empty /
+// sorted / reverse-sorted / unsorted / with duplicates where the constructor
+// admits them), out of {each mutator with each element of a small menu chosen
+// around RELATIONS to what is already inside (already present, smaller than
+// all, larger than all, between two, equal to the first / last), remove /
+// clear where offered, clone (continue on the clone with the original kept,
+// and on the original with the clone kept -- both are finalized), the read
+// accessors in between}, then finalize. Judged as everywhere in C05 (the
+// built object decodes, validates, re-encodes byte-identically, built value
+// and decoded twin agree on every accessor) plus
+//   * `history_independent`: octet-identical to a twin built freshly and
+//     directly from the final content (which only ever saw the final state);
+//   * `model`: a tiny reference model of the content (a set / list of what
+//     was put in and not taken out again): what the decoded twin lists is,
+//     as a SET, what the model holds -- so a builder may sort or merge, but
+//     may neither lose, invent nor repeat an element -- and answers of the
+//     mutators that have one (add_provider) are the model's.
+// States = distinct model states passed through; transitions = operations
+// applied; traces = operation sequences finalized against the library.
+
+/// Twins built directly from a final content, shared between the sequences
+/// that end in the same content (building is deterministic).
+struct Fresh(std::sync::Mutex<BTreeMap<String, std::sync::Arc<Vec<u8>>>>);
+impl Fresh {
+    fn new() -> Fresh { Fresh(std::sync::Mutex::new(BTreeMap::new())) }
+    fn get(&self, key: &str, make: impl FnOnce() -> Result<Vec<u8>, String>) -> Result<std::sync::Arc<Vec<u8>>, String> {
+        if let Some(x) = self.0.lock().unwrap().get(key) { return Ok(x.clone()) }
+        let v = std::sync::Arc::new(make()?);
+        Ok(self.0.lock().unwrap().entry(key.to_string()).or_insert(v).clone())
+    }
+}
+
+fn has_dup<T: PartialEq>(l: &[T]) -> bool { (1..l.len()).any(|i| l[..i].contains(&l[i])) }
+fn as_set(mut v: Vec<String>) -> Vec<String> { v.sort(); v.dedup(); v }
+
+fn history_check(r: &mut CaseResult, fresh: &[u8], bytes: &[u8]) {
+    if fresh != bytes {
+        let pos = bytes.iter().zip(fresh.iter()).position(|(a, b)| a != b).unwrap_or(bytes.len().min(fresh.len()));
+        r.fail("history_independent", format!("the object reached through this sequence differs from the one built directly from the final content: {} vs {} octets, first difference at {pos}", bytes.len(), fresh.len()));
+    }
+}
+
+/// One model state passed through (the initial one included).
+fn seq_state(r: &mut CaseResult, key: &str, transition: bool) { r.states.push(fnv(key.as_bytes())); if transition { r.transitions += 1 } }
+
+#[derive(Clone, Debug)]
+struct SeqCase { ctor: usize, path: Vec<usize> }
+
+fn seq_cases(n_ctors: usize, n_ops: usize, depth: usize, ctor_only: impl Fn(usize) -> bool) -> Vec<SeqCase> {
+    let paths = sequences(n_ops, 0, depth);
+    let mut v = vec![];
+    for c in 0..n_ctors { for p in &paths { if ctor_only(c) && !p.is_empty() { continue } v.push(SeqCase { ctor: c, path: p.clone() }) } }
+    v
+}
+
+/// The builders alive in one sequence: `clone` adds one; operations go to
+/// the active one; every one of them is finalized against its own model.
+struct Lives<B, M> { v: Vec<(B, M)>, active: usize }
+impl<B, M: Clone> Lives<B, M> {
+    fn new(b: B, m: M) -> Self { Lives { v: vec![(b, m)], active: 0 } }
+    fn b(&mut self) -> &mut B { &mut self.v[self.active].0 }
+    fn m(&mut self) -> &mut M { &mut self.v[self.active].1 }
+    fn fork(&mut self, copy: B, continue_on_copy: bool) {
+        let m = self.v[self.active].1.clone();
+        self.v.push((copy, m));
+        if continue_on_copy { self.active = self.v.len() - 1 }
+    }
+}
+
+const SEQ_RULE_TAIL: &str = "; oracles: decode / re-encode / accessor agreement / validation as in every C05 space + history_independent (octet-identical to a twin built directly from the final content) + model (decoded content, as a set, is what was put in and not taken out; mutator answers are the model's); states = distinct model states, transitions = operations applied; non-trivial = distinct DER produced";
+
+//------------ AspaBuilder ----------------------------------------------------
+
+fn space_seq_aspa(ctx: &Ctx, d: &Dom) {
+    let depth = ctx.tier.pick(3usize, 4usize);
+    let sp = ctx.space("builder.sequences.aspa", &format!("AspaBuilder: construct {{empty(), new([]), new([50]), new of every order of [30,50,70] (sorted, reverse, 4 unsorted), new([70,30]), new with a repeated provider (must be refused)}} then every sequence of <= {depth} add_provider(x), x in {{20 smaller than all, 30 = first, 40 between, 50 middle, 60 between, 70 = last, 80 larger than all}}, then finalize (customer 45 lies between the providers); an empty set is not finalized (outside the profile); outcome = providers in the final set / refusal{SEQ_RULE_TAIL}"));
+    const CUST: u32 = 45;
+    let lists: Vec<Option<Vec<u32>>> = vec![None, Some(vec![]), Some(vec![50]), Some(vec![30, 50, 70]), Some(vec![70, 50, 30]), Some(vec![50, 70, 30]),
+        Some(vec![70, 30, 50]), Some(vec![30, 70, 50]), Some(vec![50, 30, 70]), Some(vec![70, 30]), Some(vec![30, 50, 30]), Some(vec![50, 50])];
+    let menu = [20u32, 30, 40, 50, 60, 70, 80];
+    let cases = seq_cases(lists.len(), menu.len(), depth, |c| lists[c].as_ref().map(|l| has_dup(l)).unwrap_or(false));
+    let so = SoSpec::base();
+    let fresh = Fresh::new();
+    let asn = Asn::from_u32;
+    run_cases(ctx, &sp, "sequences.aspa", &cases,
+        |c| format!("AspaBuilder::{}{} -> finalize", match &lists[c.ctor] { None => "empty()".to_string(), Some(l) => format!("new({l:?})") },
+            c.path.iter().map(|&i| format!(" -> add_provider({})", menu[i])).collect::<String>()),
+        |c| {
+            let mut r = CaseResult::default();
+            let signer = so.signer(d);
+            let res = guard(|| -> Result<(), String> {
+                let mut model: BTreeSet<u32> = BTreeSet::new();
+                let mut b = match &lists[c.ctor] {
+                    None => AspaBuilder::empty(asn(CUST)),
+                    Some(l) => match AspaBuilder::new(asn(CUST), l.iter().map(|&x| asn(x)).collect::<Vec<_>>()) {
+                        Ok(b) => { if has_dup(l) { r.fail("model", "the constructor accepted a list that names a provider twice") } model.extend(l.iter().copied()); b }
+                        Err(e) => { if has_dup(l) { r.label = "constructor refused a repeated provider".into(); return Ok(()) }
+                                    return Err(format!("AspaBuilder::new refused a list without repetition: {e}")) }
+                    },
+                };
+                seq_state(&mut r, &format!("{model:?}"), false);
+                for &i in &c.path {
+                    let x = menu[i];
+                    let is_new = !model.contains(&x);
+                    match (b.add_provider(asn(x)), is_new) {
+                        (Ok(()), true) => { model.insert(x); }
+                        (Err(_), false) => {}
+                        (Ok(()), false) => r.fail("model", format!("add_provider({x}) answered Ok although {x} is already among {model:?}")),
+                        (Err(e), true) => r.fail("model", format!("add_provider({x}) answered Err({e}) although {x} is not among {model:?}")),
+                    }
+                    seq_state(&mut r, &format!("{model:?}"), true);
+                }
+                if model.is_empty() { r.label = "empty provider set (outside the profile): not finalized".into(); return Ok(()) }
+                r.label = format!("{} providers", model.len());
+                let built = b.finalize(so.builder(d), &signer, &Kid(0)).map_err(|e| e.to_string())?;
+                let Some((bytes, decoded)) = twin(&mut r, &built, |m| m.to_captured().as_slice().to_vec(), |x| Aspa::decode(x, true).map_err(|e| e.to_string()), obs_aspa) else { return Ok(()) };
+                validate_signed(d, &mut r, &bytes, &so);
+                if let Err(e) = decoded.clone().process(&d.ta, true, |_| Ok(())) { r.fail("validate", format!("Aspa::process: {e}")) }
+                let want: Vec<u32> = model.iter().copied().collect();
+                for (who, a) in [("built", &built), ("decoded", &decoded)] {
+                    let got: Vec<u32> = a.content().provider_as_set().iter().map(|x| x.into_u32()).collect();
+                    if got != want || a.content().provider_as_set().len() != want.len() || a.content().customer_as() != asn(CUST) {
+                        r.fail("model", format!("the {who} ASPA lists customer {} providers {got:?} (len() = {}), put in: customer {CUST} providers {want:?}", a.content().customer_as(), a.content().provider_as_set().len()));
+                    }
+                }
+                let f = fresh.get(&format!("{want:?}"), || { let mut fb = AspaBuilder::empty(asn(CUST)); for &x in &want { fb.add_provider(asn(x)).map_err(|e| e.to_string())? }
+                    Ok(fb.finalize(so.builder(d), &signer, &Kid(0)).map_err(|e| e.to_string())?.to_captured().as_slice().to_vec()) })?;
+                history_check(&mut r, &f, &bytes);
+                Ok(())
+            });
+            match res { Ok(Ok(())) => {}, Ok(Err(e)) => r.fail("build", e), Err(p) => r.fail("build", p) }
+            r
+        });
+    sp.done(true, &format!("{} operation sequences: {} constructions x every add_provider sequence of length <= {depth} over {} elements", cases.len(), lists.len(), menu.len()));
+}
+
+//------------ RoaBuilder / RoaIpAddressesBuilder ------------------------------
+
+#[derive(Clone, Copy, Debug)]
+enum RoaOp { Push4(usize), PushAddr4(usize), Slice4(&'static [usize]), Extend4(&'static [usize]), Push6(usize), Slice6(&'static [usize]), SetAs(u32), Observe, CloneOn, CloneOff }
+
+#[derive(Clone, Debug)]
+struct RoaModel { asn: u32, v4: Vec<usize>, v6: Vec<usize> }
+
+fn r_roa_one(x: RoaIpAddress) -> String { format!("{:032x}/{}-{:?}", x.prefix().addr().to_bits(), x.prefix().addr_len(), x.max_length()) }
+
+fn space_seq_roa(ctx: &Ctx, d: &Dom) {
+    use rpki::repository::roa::RoaIpAddressesBuilder;
+    let depth = ctx.tier.pick(3usize, 4usize);
+    let sp = ctx.space("builder.sequences.roa", &format!("RoaBuilder / RoaIpAddressesBuilder: construct {{new(as), with_addresses(as, v4, v6) with the address builders filled (push / extend_from_slice / Extend / Default) with lists that are empty, sorted, reverse-sorted, unsorted, with an exact duplicate}} then every sequence of <= {depth} operations out of {{push_v4 of the covering /8, the /16 with the same network address, the /16 again with a maxLength; push_v4_addr of the adjacent /16; extend_v4_from_slice([last address, /16]); v4_mut().extend([/16, /8]); push_v6; extend_v6_from_slice; set_as_id; the read accessors (as_id, v4 / v6 to_addresses / to_resources / encode_ref, to_attestation); clone (with_addresses(as_id(), v4().clone(), v6().clone())) continuing on the copy / on the original}}, then finalize every live builder; a builder without prefixes is not finalized (documented panic); outcome = prefixes per family in the final state{SEQ_RULE_TAIL}"));
+    let a4 = roa_alphabet(true); let a6 = roa_alphabet(false);
+    // (as, v4 list, how v4 is filled, v6 list)
+    let ctors: Vec<(&str, Vec<usize>, u8, Vec<usize>)> = vec![
+        ("new(as)", vec![], 0, vec![]),
+        ("with_addresses(v4=[/8,/16,adjacent/16] pushed, v6=[])", vec![0, 1, 3], 0, vec![]),
+        ("with_addresses(v4=[adjacent/16,/16,/8] extend_from_slice, v6=[/32])", vec![3, 1, 0], 1, vec![0]),
+        ("with_addresses(v4=[/16,adjacent/16,/8] Extend, v6=[])", vec![1, 3, 0], 2, vec![]),
+        ("with_addresses(v4=[/16,/16], v6=[/34,/34])", vec![1, 1], 0, vec![4, 4]),
+        ("with_addresses(v4=[] Default, v6=[adjacent/48,/32])", vec![], 3, vec![3, 0]),
+    ];
+    let ops = [RoaOp::Push4(0), RoaOp::Push4(1), RoaOp::Push4(8), RoaOp::PushAddr4(3), RoaOp::Slice4(&[9, 1]), RoaOp::Extend4(&[1, 0]), RoaOp::Push6(1), RoaOp::Slice6(&[1, 0]),
+        RoaOp::SetAs(4294967295), RoaOp::Observe, RoaOp::CloneOn, RoaOp::CloneOff];
+    let cases = seq_cases(ctors.len(), ops.len(), depth, |_| false);
+    let so = SoSpec::base();
+    let fresh = Fresh::new();
+    let key = |m: &RoaModel| format!("{} {:?} {:?}", m.asn, m.v4, m.v6);
+    run_cases(ctx, &sp, "sequences.roa", &cases,
+        |c| format!("RoaBuilder::{}{} -> finalize", ctors[c.ctor].0, c.path.iter().map(|&i| format!(" -> {:?}", ops[i])).collect::<String>()),
+        |c| {
+            let mut r = CaseResult::default();
+            let signer = so.signer(d);
+            let res = guard(|| -> Result<(), String> {
+                let (_, l4, how, l6) = &ctors[c.ctor];
+                let e4: Vec<RoaIpAddress> = l4.iter().map(|&i| a4[i]).collect(); let e6: Vec<RoaIpAddress> = l6.iter().map(|&i| a6[i]).collect();
+                let b = if c.ctor == 0 { RoaBuilder::new(asn_of(65536)) } else {
+                    let mut b4 = if *how == 3 { RoaIpAddressesBuilder::default() } else { RoaIpAddressesBuilder::new() };
+                    match how { 1 => b4.extend_from_slice(&e4), 2 => b4.extend(e4.iter().copied()), _ => for x in &e4 { b4.push(*x) } }
+                    let mut b6 = RoaIpAddressesBuilder::new(); for x in &e6 { b6.push_addr(x.prefix().to_v6().into(), x.prefix().addr_len(), x.max_length()) }
+                    RoaBuilder::with_addresses(asn_of(65536), b4, b6)
+                };
+                let mut lives = Lives::new(b, RoaModel { asn: 65536, v4: l4.clone(), v6: l6.clone() });
+                seq_state(&mut r, &key(lives.m()), false);
+                for &i in &c.path {
+                    match ops[i] {
+                        RoaOp::Push4(e) => { lives.b().push_v4(a4[e]); lives.m().v4.push(e) }
+                        RoaOp::PushAddr4(e) => { lives.b().push_v4_addr(a4[e].prefix().to_v4(), a4[e].prefix().addr_len(), a4[e].max_length()); lives.m().v4.push(e) }
+                        RoaOp::Slice4(l) => { let v: Vec<RoaIpAddress> = l.iter().map(|&i| a4[i]).collect(); lives.b().extend_v4_from_slice(&v); lives.m().v4.extend_from_slice(l) }
+                        RoaOp::Extend4(l) => { lives.b().v4_mut().extend(l.iter().map(|&i| a4[i])); lives.m().v4.extend_from_slice(l) }
+                        RoaOp::Push6(e) => { lives.b().push_v6(a6[e]); lives.m().v6.push(e) }
+                        RoaOp::Slice6(l) => { let v: Vec<RoaIpAddress> = l.iter().map(|&i| a6[i]).collect(); lives.b().extend_v6_from_slice(&v); lives.m().v6.extend_from_slice(l) }
+                        RoaOp::SetAs(a) => { lives.b().set_as_id(asn_of(a)); lives.m().asn = a }
+                        RoaOp::Observe => {
+                            let m = lives.m().clone(); let b = lives.b();
+                            let att = b.to_attestation();
+                            let got = (b.as_id().into_u32(), as_set(att.v4_addrs().iter().map(r_roa_one).collect()), as_set(att.v6_addrs().iter().map(r_roa_one).collect()));
+                            let want = (m.asn, as_set(m.v4.iter().map(|&i| r_roa_one(a4[i])).collect()), as_set(m.v6.iter().map(|&i| r_roa_one(a6[i])).collect()));
+                            if got != want { r.fail("model", format!("the builder's accessors say {got:?}, put in: {want:?}")) }
+                            let (x4, x6) = (as_set(b.v4().to_addresses().iter().map(r_roa_one).collect()), as_set(b.v6().to_addresses().iter().map(r_roa_one).collect()));
+                            if (x4, x6) != (want.1, want.2) { r.fail("model", "v4() / v6() to_addresses() list other prefixes than were put in") }
+                            let w4: IpBlocks = m.v4.iter().map(|&i| IpBlock::from(a4[i].prefix())).collect(); let w6: IpBlocks = m.v6.iter().map(|&i| IpBlock::from(a6[i].prefix())).collect();
+                            if r_ipres(&b.v4().to_resources(), true) != r_ipres(&IpResources::blocks(w4), true) || r_ipres(&b.v6().to_resources(), false) != r_ipres(&IpResources::blocks(w6), false) { r.fail("model", "to_resources() covers other addresses than the prefixes put in") }
+                            for (fam, eb, n) in [("v4", cap(b.v4().encode_ref()), att.v4_addrs().iter().count()), ("v6", cap(b.v6().encode_ref()), att.v6_addrs().iter().count())] {
+                                match der::parse_one(&eb, true) { Some(node) if node.tag == der::T_SEQ && node.children.len() == n => {}
+                                    _ => r.fail("accessors", format!("{fam}().encode_ref() = {} is not a SEQUENCE of the {n} entries to_attestation() lists", hx(&eb))) }
+                            }
+                        }
+                        RoaOp::CloneOn | RoaOp::CloneOff => { let b = lives.b(); let copy = RoaBuilder::with_addresses(b.as_id(), b.v4().clone(), b.v6().clone()); lives.fork(copy, matches!(ops[i], RoaOp::CloneOn)) }
+                    }
+                    seq_state(&mut r, &key(lives.m()), true);
+                }
+                let n = lives.v.len();
+                for (k, (b, m)) in lives.v.into_iter().enumerate() {
+                    if m.v4.is_empty() && m.v6.is_empty() { r.label = "no prefixes (documented panic): not finalized".into(); continue }
+                    r.label = format!("v4:{} v6:{} prefixes", ["0", "1", "2+"][m.v4.len().min(2)], ["0", "1", "2+"][m.v6.len().min(2)]);
+                    let who = if n == 1 { String::new() } else { format!("live builder #{k} of {n}: ") };
+                    let built = b.finalize(so.builder(d), &signer, &Kid(0)).map_err(|e| format!("{who}{e}"))?;
+                    let before = r.fails.len();
+                    let Some((bytes, decoded)) = twin(&mut r, &built, |m| m.to_captured().as_slice().to_vec(), |x| Roa::decode(x, true).map_err(|e| e.to_string()), obs_roa) else { continue };
+                    validate_signed(d, &mut r, &bytes, &so);
+                    if let Err(e) = decoded.clone().process(&d.ta, true, |_| Ok(())) { r.fail("validate", format!("Roa::process: {e}")) }
+                    let got = (decoded.content().as_id().into_u32(), as_set(decoded.content().v4_addrs().iter().map(r_roa_one).collect()), as_set(decoded.content().v6_addrs().iter().map(r_roa_one).collect()));
+                    let want = (m.asn, as_set(m.v4.iter().map(|&i| r_roa_one(a4[i])).collect()), as_set(m.v6.iter().map(|&i| r_roa_one(a6[i])).collect()));
+                    if got != want { r.fail("model", format!("the decoded ROA holds {got:?}, put in: {want:?}")) }
+                    let f = fresh.get(&key(&m), || { let mut fb = RoaBuilder::new(asn_of(m.asn)); for &i in &m.v4 { fb.push_v4(a4[i]) } for &i in &m.v6 { fb.push_v6(a6[i]) }
+                        Ok(fb.finalize(so.builder(d), &signer, &Kid(0)).map_err(|e| e.to_string())?.to_captured().as_slice().to_vec()) })?;
+                    history_check(&mut r, &f, &bytes);
+                    for x in r.fails[before..].iter_mut() { x.1 = format!("{who}{}", x.1) }
+                }
+                Ok(())
+            });
+            match res { Ok(Ok(())) => {}, Ok(Err(e)) => r.fail("build", e), Err(p) => r.fail("build", p) }
+            r
+        });
+    sp.done(true, &format!("{} operation sequences: {} constructions x every sequence of length <= {depth} over {} operations", cases.len(), ctors.len(), ops.len()));
+}
+
+fn asn_of(x: u32) -> Asn { Asn::from_u32(x) }
+
+//------------ ManifestContent (file-list construction) -----------------------
+
+#[derive(Clone, Copy, Debug)]
+enum MftOp { Append(usize), DropFirst, DropLast, Renumber, Observe, CloneOn, CloneOff }
+
+#[derive(Clone, Debug)]
+struct MftModel { number: usize, files: Vec<usize> }
+
+fn space_seq_manifest(ctx: &Ctx, d: &Dom) {
+    let depth = ctx.tier.pick(3usize, 4usize);
+    let sp = ctx.space("builder.sequences.manifest", &format!("ManifestContent: construct from a file list that is {{empty, one entry, sorted by name, reverse-sorted, unsorted, an exact duplicate, the same name with two hashes}} then every sequence of <= {depth} operations out of {{re-issue from the content's own iterator with one more entry (a.roa = already present, A.roa = differs in case only, b.roa = larger than all, a.roa with another hash), without the first / without the last entry (take(len() - 1)), with another manifest number; the read accessors (len, is_empty, iter, iter_uris, encode_ref, numbers and times); clone continuing on the copy / on the original}}, then into_manifest for every live value; outcome = files in the final list{SEQ_RULE_TAIL}"));
+    let files = mft_files();
+    let lists: Vec<Vec<usize>> = vec![vec![], vec![0], vec![1, 2, 0, 3], vec![3, 0, 2, 1], vec![0, 3, 1], vec![0, 0], vec![0, 4]];
+    let ops = [MftOp::Append(0), MftOp::Append(1), MftOp::Append(3), MftOp::Append(4), MftOp::DropFirst, MftOp::DropLast, MftOp::Renumber, MftOp::Observe, MftOp::CloneOn, MftOp::CloneOff];
+    let cases = seq_cases(lists.len(), ops.len(), depth, |_| false);
+    let so = SoSpec::base();
+    let fresh = Fresh::new();
+    let base_uri = d.dirs[1].clone();
+    let key = |m: &MftModel| format!("{} {:?}", m.number, m.files);
+    let r_file = |i: usize| format!("{}={}", hex(&files[i].0), hex(&files[i].1));
+    let fname = |i: usize| format!("{}{}", String::from_utf8_lossy(&files[i].0), if i == 4 { "(other hash)" } else { "" });
+    run_cases(ctx, &sp, "sequences.manifest", &cases,
+        |c| format!("ManifestContent::new({:?}){} -> into_manifest", lists[c.ctor].iter().map(|&i| fname(i)).collect::<Vec<_>>(),
+            c.path.iter().map(|&i| match ops[i] { MftOp::Append(x) => format!(" -> re-issue + {}", fname(x)), o => format!(" -> {o:?}") }).collect::<String>()),
+        |c| {
+            let mut r = CaseResult::default();
+            let signer = so.signer(d);
+            let res = guard(|| -> Result<(), String> {
+                let head = |n: usize| (d.serials[n].1, d.instants[1], d.instants[3], DigestAlgorithm::sha256());
+                let h = head(3);
+                let first = ManifestContent::new(h.0, h.1, h.2, h.3, lists[c.ctor].iter().map(|&i| FileAndHash::new(files[i].0.clone(), files[i].1.clone())));
+                let mut lives = Lives::new(first, MftModel { number: 3, files: lists[c.ctor].clone() });
+                seq_state(&mut r, &key(lives.m()), false);
+                for &i in &c.path {
+                    let cur = lives.b().clone();
+                    let h = head(lives.m().number);
+                    match ops[i] {
+                        MftOp::Append(x) => { *lives.b() = ManifestContent::new(h.0, h.1, h.2, h.3, cur.iter().chain(std::iter::once(FileAndHash::new(Bytes::from(files[x].0.clone()), Bytes::from(files[x].1.clone())))));
+                            lives.m().files.push(x) }
+                        MftOp::DropFirst => { *lives.b() = ManifestContent::new(h.0, h.1, h.2, h.3, cur.iter().skip(1)); if !lives.m().files.is_empty() { lives.m().files.remove(0); } }
+                        MftOp::DropLast => { *lives.b() = ManifestContent::new(h.0, h.1, h.2, h.3, cur.iter().take(cur.len().saturating_sub(1))); lives.m().files.pop(); }
+                        MftOp::Renumber => { let n = if lives.m().number == 3 { 5 } else { 3 }; let h = head(n); *lives.b() = ManifestContent::new(h.0, h.1, h.2, h.3, cur.iter()); lives.m().number = n }
+                        MftOp::Observe => {
+                            let m = lives.m().clone(); let b = lives.b();
+                            let listed: Vec<String> = b.iter().map(|f| format!("{}={}", hex(f.file()), hex(f.hash()))).collect();
+                            if b.len() != listed.len() || b.is_empty() != listed.is_empty() || b.iter_uris(&base_uri).count() != listed.len() { r.fail("accessors", format!("len() = {}, is_empty() = {}, iter_uris() yields {}, iter() yields {}", b.len(), b.is_empty(), b.iter_uris(&base_uri).count(), listed.len())) }
+                            if as_set(listed.clone()) != as_set(m.files.iter().map(|&i| r_file(i)).collect()) || b.manifest_number() != d.serials[m.number].1 || b.this_update() != d.instants[1] || b.next_update() != d.instants[3] {
+                                r.fail("model", format!("the content's accessors say number {} files {listed:?}, put in: number {} files {:?}", b.manifest_number(), d.serials[m.number].1, m.files.iter().map(|&i| fname(i)).collect::<Vec<_>>())) }
+                            let _ = (cap(b.encode_ref()), b.is_stale(), r_digest_alg(b.file_hash_alg()));
+                        }
+                        MftOp::CloneOn | MftOp::CloneOff => lives.fork(cur, matches!(ops[i], MftOp::CloneOn)),
+                    }
+                    seq_state(&mut r, &key(lives.m()), true);
+                }
+                let n = lives.v.len();
+                for (k, (b, m)) in lives.v.into_iter().enumerate() {
+                    r.label = format!("{} files", m.files.len().min(5));
+                    let who = if n == 1 { String::new() } else { format!("live value #{k} of {n}: ") };
+                    let before = r.fails.len();
+                    let built = b.into_manifest(so.builder(d), &signer, &Kid(0)).map_err(|e| format!("{who}{e}"))?;
+                    let Some((bytes, decoded)) = twin(&mut r, &built, |m| m.to_captured().as_slice().to_vec(), |x| Manifest::decode(x, true).map_err(|e| e.to_string()), |m| obs_manifest(m, &base_uri)) else { continue };
+                    validate_signed(d, &mut r, &bytes, &so);
+                    if let Err(e) = decoded.clone().validate_at(&d.ta, true, d.instants[1]) { r.fail("validate", format!("Manifest::validate_at: {e}")) }
+                    let listed: Vec<String> = decoded.content().iter().map(|f| format!("{}={}", hex(f.file()), hex(f.hash()))).collect();
+                    if as_set(listed.clone()) != as_set(m.files.iter().map(|&i| r_file(i)).collect()) || decoded.content().manifest_number() != d.serials[m.number].1 || decoded.content().len() != listed.len() {
+                        r.fail("model", format!("the decoded manifest has number {} and lists {listed:?} (len() = {}), put in: number {} files {:?}", decoded.content().manifest_number(), decoded.content().len(), d.serials[m.number].1, m.files.iter().map(|&i| fname(i)).collect::<Vec<_>>())) }
+                    let f = fresh.get(&key(&m), || { let h = head(m.number);
+                        Ok(ManifestContent::new(h.0, h.1, h.2, h.3, m.files.iter().map(|&i| FileAndHash::new(files[i].0.clone(), files[i].1.clone())).collect::<Vec<_>>())
+                            .into_manifest(so.builder(d), &signer, &Kid(0)).map_err(|e| e.to_string())?.to_captured().as_slice().to_vec()) })?;
+                    history_check(&mut r, &f, &bytes);
+                    for x in r.fails[before..].iter_mut() { x.1 = format!("{who}{}", x.1) }
+                }
+                Ok(())
+            });
+            match res { Ok(Ok(())) => {}, Ok(Err(e)) => r.fail("build", e), Err(p) => r.fail("build", p) }
+            r
+        });
+    sp.done(true, &format!("{} operation sequences: {} constructions x every sequence of length <= {depth} over {} operations", cases.len(), lists.len(), ops.len()));
+}
+
+//------------ TbsCertList / revocation lists ---------------------------------
+
+#[derive(Clone, Copy, Debug)]
+enum CrlOp { Push(usize), Insert0(usize), Remove0, Pop, Clear, Sort, SetList(&'static [usize]), Observe, CloneOn, CloneOff }
+
+#[derive(Clone, Debug)]
+struct CrlModel { ents: Vec<usize> }
+
+/// (serial, instant index; 5 = T0): 10, 20, 35, 50, 90, 99 and the serial 50
+/// once more with another date
+const SEQ_CRL_ENT: [(u64, usize); 7] = [(10, 1), (20, 1), (35, 2), (50, 0), (90, 3), (99, 5), (50, 3)];
+const SEQ_CRL_PROBES: [u64; 8] = [5, 10, 20, 35, 50, 60, 90, 99];
+
+fn seq_crl_entry(d: &Dom, i: usize) -> CrlEntry { let (s, t) = SEQ_CRL_ENT[i]; CrlEntry::new(Serial::from(s), if t < 5 { d.instants[t] } else { pki::time(pki::T0) }) }
+fn r_crl_entry(e: CrlEntry) -> String { format!("{}@{}", e.user_certificate, r_time(e.revocation_date)) }
+
+/// `contains` in every way it can be asked -- on the value, on the list, on a
+/// copy that cached its serials first (as validators do) -- against the model.
+fn crl_contains_model(r: &mut CaseResult, who: &str, c: &Crl, serials: &BTreeSet<u64>) {
+    let mut cached = c.clone(); cached.cache_serials();
+    for p in SEQ_CRL_PROBES {
+        let want = serials.contains(&p); let s = Serial::from(p);
+        let got = [c.contains(s), c.revoked_certs().contains(s), cached.contains(s), cached.revoked_certs().contains(s)];
+        if got.iter().any(|g| *g != want) {
+            r.fail("model", format!("{who}: serial {p} was{} put on the list, but contains / revoked_certs().contains / contains after cache_serials / revoked_certs().contains after cache_serials answer {got:?}", if want { "" } else { " not" }));
+        }
+    }
+}
+
+fn space_seq_crl(ctx: &Ctx, d: &Dom) {
+    let depth = ctx.tier.pick(3usize, 4usize);
+    let sp = ctx.space("builder.sequences.crl", &format!("TbsCertList<Vec<CrlEntry>>: construct with a revocation list that is {{empty, one entry, sorted [20,50,90], reverse-sorted, unsorted (2 orders), an exact duplicate, one serial with two dates}} then every sequence of <= {depth} operations out of {{revoked_certs_mut(): push of 10 (smaller than all) / 50 (present) / 35 (between) / 99 (larger than all), insert(0, 90) (equal to the last), remove(0), pop, clear, sort; set_revoked_certs([90,20]); the read accessors; clone continuing on the copy / on the original}}, then into_crl for every live value; contains() of the built CRL and of its decoded twin is asked for 8 serials (present first / middle / last, absent below / between / above) directly, through revoked_certs(), and on copies that called cache_serials() first, and must be the model's answer each time; outcome = entries in the final list{SEQ_RULE_TAIL}"));
+    let lists: Vec<Vec<usize>> = vec![vec![], vec![3], vec![1, 3, 4], vec![4, 3, 1], vec![3, 4, 1], vec![4, 1, 3], vec![1, 1], vec![3, 6]];
+    let ops = [CrlOp::Push(0), CrlOp::Push(3), CrlOp::Push(2), CrlOp::Push(5), CrlOp::Insert0(4), CrlOp::Remove0, CrlOp::Pop, CrlOp::Clear, CrlOp::Sort, CrlOp::SetList(&[4, 1]),
+        CrlOp::Observe, CrlOp::CloneOn, CrlOp::CloneOff];
+    let cases = seq_cases(lists.len(), ops.len(), depth, |_| false);
+    let fresh = Fresh::new();
+    let probes: Vec<Serial> = SEQ_CRL_PROBES.iter().map(|&p| Serial::from(p)).collect();
+    let mk = |l: &[usize]| TbsCertList::new(RpkiSignatureAlgorithm::default(), d.issuer_name(1, 0), d.instants[1], d.instants[3],
+        l.iter().map(|&i| seq_crl_entry(d, i)).collect::<Vec<CrlEntry>>(), d.signer.public(0).key_identifier(), d.serials[3].1);
+    let ser = |i: usize| SEQ_CRL_ENT[i].0;
+    run_cases(ctx, &sp, "sequences.crl", &cases,
+        |c| format!("TbsCertList::new(revoked={:?}){} -> into_crl", lists[c.ctor].iter().map(|&i| ser(i)).collect::<Vec<_>>(),
+            c.path.iter().map(|&i| match ops[i] { CrlOp::Push(x) => format!(" -> push({})", ser(x)), CrlOp::Insert0(x) => format!(" -> insert(0, {})", ser(x)),
+                CrlOp::SetList(l) => format!(" -> set_revoked_certs({:?})", l.iter().map(|&i| ser(i)).collect::<Vec<_>>()), o => format!(" -> {o:?}") }).collect::<String>()),
+        |c| {
+            let mut r = CaseResult::default();
+            let res = guard(|| -> Result<(), String> {
+                let mut lives = Lives::new(mk(&lists[c.ctor]), CrlModel { ents: lists[c.ctor].clone() });
+                seq_state(&mut r, &format!("{:?}", lives.m().ents), false);
+                for &i in &c.path {
+                    match ops[i] {
+                        CrlOp::Push(x) => { lives.b().revoked_certs_mut().push(seq_crl_entry(d, x)); lives.m().ents.push(x) }
+                        CrlOp::Insert0(x) => { lives.b().revoked_certs_mut().insert(0, seq_crl_entry(d, x)); lives.m().ents.insert(0, x) }
+                        CrlOp::Remove0 => if !lives.m().ents.is_empty() { lives.b().revoked_certs_mut().remove(0); lives.m().ents.remove(0); },
+                        CrlOp::Pop => { lives.b().revoked_certs_mut().pop(); lives.m().ents.pop(); }
+                        CrlOp::Clear => { lives.b().revoked_certs_mut().clear(); lives.m().ents.clear() }
+                        CrlOp::Sort => { lives.b().revoked_certs_mut().sort_by_key(|e| e.user_certificate); lives.m().ents.sort_by_key(|&i| ser(i)) }
+                        CrlOp::SetList(l) => { lives.b().set_revoked_certs(l.iter().map(|&i| seq_crl_entry(d, i)).collect()); lives.m().ents = l.to_vec() }
+                        CrlOp::Observe => {
+                            let m = lives.m().clone(); let b = lives.b();
+                            let got = as_set(b.revoked_certs().iter().map(|e| r_crl_entry(*e)).collect());
+                            if got != as_set(m.ents.iter().map(|&i| r_crl_entry(seq_crl_entry(d, i))).collect()) || b.crl_number() != d.serials[3].1 || b.this_update() != d.instants[1] || b.next_update() != d.instants[3] {
+                                r.fail("model", format!("the builder's accessors say {got:?}, put in: {:?}", m.ents.iter().map(|&i| ser(i)).collect::<Vec<_>>())) }
+                            let _ = (b.is_stale(), r_name(b.issuer()), r_ski(b.authority_key_identifier()), b.signature());
+                        }
+                        CrlOp::CloneOn | CrlOp::CloneOff => { let copy = lives.b().clone(); lives.fork(copy, matches!(ops[i], CrlOp::CloneOn)) }
+                    }
+                    seq_state(&mut r, &format!("{:?}", lives.m().ents), true);
+                }
+                let n = lives.v.len();
+                for (k, (b, m)) in lives.v.into_iter().enumerate() {
+                    r.label = format!("{} entries", m.ents.len().min(5));
+                    let who = if n == 1 { String::new() } else { format!("live value #{k} of {n}: ") };
+                    let before = r.fails.len();
+                    let built = b.into_crl(&d.signer, &Kid(0)).map_err(|e| format!("{who}{e}"))?;
+                    let Some((bytes, decoded)) = twin(&mut r, &built, |m| m.to_captured().as_slice().to_vec(), |x| Crl::decode(x).map_err(|e| e.to_string()), |x| obs_crl(x, &probes)) else { continue };
+                    if let Err(e) = decoded.verify_signature(&d.signer.public(0)) { r.fail("validate", e.to_string()) }
+                    let serials: BTreeSet<u64> = m.ents.iter().map(|&i| ser(i)).collect();
+                    crl_contains_model(&mut r, "built CRL", &built, &serials);
+                    crl_contains_model(&mut r, "decoded twin", &decoded, &serials);
+                    let listed = as_set(decoded.revoked_certs().iter().map(r_crl_entry).collect());
+                    if listed != as_set(m.ents.iter().map(|&i| r_crl_entry(seq_crl_entry(d, i))).collect()) { r.fail("model", format!("the decoded CRL lists {listed:?}, put in: {:?}", m.ents.iter().map(|&i| ser(i)).collect::<Vec<_>>())) }
+                    let f = fresh.get(&format!("{:?}", m.ents), || Ok(mk(&m.ents).into_crl(&d.signer, &Kid(0)).map_err(|e| e.to_string())?.to_captured().as_slice().to_vec()))?;
+                    history_check(&mut r, &f, &bytes);
+                    for x in r.fails[before..].iter_mut() { x.1 = format!("{who}{}", x.1) }
+                }
+                Ok(())
+            });
+            match res { Ok(Ok(())) => {}, Ok(Err(e)) => r.fail("build", e), Err(p) => r.fail("build", p) }
+            r
+        });
+    sp.done(true, &format!("{} operation sequences: {} constructions x every sequence of length <= {depth} over {} operations", cases.len(), lists.len(), ops.len()));
+}
+
+//------------ AsResourcesBuilder / IpResourcesBuilder -> TbsCert -------------
+
+#[derive(Clone, Copy, Debug)]
+enum ResOp { Inherit, Push(usize), Empty, Extend(&'static [usize]), CloneOn, CloneOff }
+
+/// unit ranges: 2 and 3 are adjacent (merge), 1-4 covers both, 3-6 overlaps,
+/// 8 lies apart above, 0 below
+const SEQ_RES_BLOCKS: [(u32, u32); 6] = [(2, 2), (3, 3), (1, 4), (3, 6), (8, 8), (0, 0)];
+
+#[derive(Clone)]
+enum ResB { As(rpki::repository::resources::AsResourcesBuilder), Ip(rpki::repository::resources::IpResourcesBuilder) }
+
+fn seq_as_block(i: usize) -> AsBlock { let (a, b) = SEQ_RES_BLOCKS[i]; if a == b { AsBlock::from(asn_of(64500 + a)) } else { AsBlock::from((asn_of(64500 + a), asn_of(64500 + b))) } }
+fn seq_ip_block(fam: Fam, i: usize) -> IpBlock {
+    use rpki::repository::resources::Addr;
+    let (a, b) = (SEQ_RES_BLOCKS[i].0 as u128, SEQ_RES_BLOCKS[i].1 as u128);
+    if fam == Fam::V4 { IpBlock::from((Addr::from_bits((0x0a00_0000 + a) << 96), Addr::from_bits(((0x0a00_0000 + b) << 96) | ((1u128 << 96) - 1)))) }
+    else { let base = 0x2001_0db8u128 << 96; IpBlock::from((Addr::from_bits(base + a), Addr::from_bits(base + b))) }
+}
+
+impl ResB {
+    fn new(fam: Fam) -> ResB { match fam { Fam::As => ResB::As(rpki::repository::resources::AsResourcesBuilder::new()), Fam::V4 => ResB::Ip(rpki::repository::resources::IpResourcesBuilder::new()), Fam::V6 => ResB::Ip(Default::default()) } }
+    fn inherit(&mut self) { match self { ResB::As(b) => b.inherit(), ResB::Ip(b) => b.inherit() } }
+    fn blocks(&mut self, fam: Fam, l: &[usize], extend: bool) {
+        match self {
+            ResB::As(b) => b.blocks(|x| if extend { x.extend(l.iter().map(|&i| seq_as_block(i))) } else { for &i in l { x.push(seq_as_block(i)) } }),
+            ResB::Ip(b) => b.blocks(|x| if extend { x.extend(l.iter().map(|&i| seq_ip_block(fam, i))) } else { for &i in l { x.push(seq_ip_block(fam, i)) } }),
+        }
+    }
+    /// finalize into a CA certificate's TBS
+    fn into_tbs(self, d: &Dom, fam: Fam) -> TbsCert {
+        let mut t = CertSpec { v4: if fam == Fam::V4 { ResCh::Missing } else { ResCh::Blocks(vec![0]) }, v6: ResCh::Missing, asn: if fam == Fam::As { ResCh::Missing } else { ResCh::Blocks(vec![2]) }, ..CertSpec::base(CKind::Ca) }.build(d);
+        match (self, fam) { (ResB::As(b), _) => t.set_as_resources(b.finalize()), (ResB::Ip(b), Fam::V4) => t.set_v4_resources(b.finalize()), (ResB::Ip(b), _) => t.set_v6_resources(b.finalize()) }
+        t
+    }
+}
+
+/// (inherited?, the units covered) of the family in a certificate
+fn seq_res_units(t: &TbsCert, fam: Fam) -> (bool, BTreeSet<u32>) {
+    match fam {
+        Fam::As => (t.as_resources().is_inherited(), t.as_resources().to_blocks().map(|b| b.iter().flat_map(|x| (x.min().into_u32() - 64500)..=(x.max().into_u32() - 64500)).collect()).unwrap_or_default()),
+        Fam::V4 => (t.v4_resources().is_inherited(), t.v4_resources().to_blocks().map(|b| b.iter().flat_map(|x| (((x.min().to_bits() >> 96) - 0x0a00_0000) as u32)..=(((x.max().to_bits() >> 96) - 0x0a00_0000) as u32)).collect()).unwrap_or_default()),
+        Fam::V6 => { let base = 0x2001_0db8u128 << 96;
+            (t.v6_resources().is_inherited(), t.v6_resources().to_blocks().map(|b| b.iter().flat_map(|x| ((x.min().to_bits() - base) as u32)..=((x.max().to_bits() - base) as u32)).collect()).unwrap_or_default()) }
+    }
+}
+
+fn space_seq_resources(ctx: &Ctx, d: &Dom) {
+    let depth = ctx.tier.pick(3usize, 4usize);
+    let sp = ctx.space("builder.sequences.resources", &format!("AsResourcesBuilder / IpResourcesBuilder (IPv4, IPv6; new() and Default) feeding TbsCert::set_*_resources: every sequence of <= {depth} operations out of {{inherit(); blocks(push x) for x in unit ranges chosen for their relations: 2, 3 (adjacent, merge), 1-4 (covers both), 3-6 (overlaps), 8 (apart, larger than all), 0 (smaller than all); blocks(|_| ()) ; blocks(extend [8, 2, 3-6]); clone continuing on the copy / on the original}}, then finalize -> set_*_resources -> into_cert -> Cert::decode -> validate_ca_at for every live builder; model: inherit() forgets the blocks, blocks() after inherit() starts afresh, blocks() after blocks() adds, nothing pushed = missing; the decoded certificate covers exactly the union of the units pushed since; outcome = inherit / missing / units covered{SEQ_RULE_TAIL}"));
+    let fams = [Fam::As, Fam::V4, Fam::V6];
+    let ops = [ResOp::Inherit, ResOp::Push(0), ResOp::Push(1), ResOp::Push(2), ResOp::Push(3), ResOp::Push(4), ResOp::Push(5), ResOp::Empty, ResOp::Extend(&[4, 0, 3]), ResOp::CloneOn, ResOp::CloneOff];
+    let cases = seq_cases(fams.len(), ops.len(), depth, |_| false);
+    let fresh = Fresh::new();
+    let units = |m: &Option<Vec<usize>>| -> (bool, BTreeSet<u32>) { match m { None => (true, BTreeSet::new()), Some(l) => (false, l.iter().flat_map(|&i| SEQ_RES_BLOCKS[i].0..=SEQ_RES_BLOCKS[i].1).collect()) } };
+    run_cases(ctx, &sp, "sequences.resources", &cases,
+        |c| format!("{:?} resources builder new(){} -> finalize -> set_*_resources -> into_cert", fams[c.ctor],
+            c.path.iter().map(|&i| match ops[i] { ResOp::Push(x) => format!(" -> blocks(push {:?})", SEQ_RES_BLOCKS[x]), ResOp::Extend(l) => format!(" -> blocks(extend {:?})", l.iter().map(|&i| SEQ_RES_BLOCKS[i]).collect::<Vec<_>>()),
+                ResOp::Empty => " -> blocks(nothing)".to_string(), o => format!(" -> {o:?}") }).collect::<String>()),
+        |c| {
+            let mut r = CaseResult::default();
+            let fam = fams[c.ctor];
+            let res = guard(|| -> Result<(), String> {
+                let mut lives: Lives<ResB, Option<Vec<usize>>> = Lives::new(ResB::new(fam), Some(vec![]));
+                seq_state(&mut r, &format!("{fam:?}{:?}", units(lives.m())), false);
+                for &i in &c.path {
+                    match ops[i] {
+                        ResOp::Inherit => { lives.b().inherit(); *lives.m() = None }
+                        ResOp::Push(x) => { lives.b().blocks(fam, &[x], false); lives.m().get_or_insert_with(Vec::new).push(x) }
+                        ResOp::Empty => { lives.b().blocks(fam, &[], false); lives.m().get_or_insert_with(Vec::new); }
+                        ResOp::Extend(l) => { lives.b().blocks(fam, l, true); lives.m().get_or_insert_with(Vec::new).extend_from_slice(l) }
+                        ResOp::CloneOn | ResOp::CloneOff => { let copy = lives.b().clone(); lives.fork(copy, matches!(ops[i], ResOp::CloneOn)) }
+                    }
+                    seq_state(&mut r, &format!("{fam:?}{:?}", units(lives.m())), true);
+                }
+                let n = lives.v.len();
+                for (k, (b, m)) in lives.v.into_iter().enumerate() {
+                    let want = units(&m);
+                    r.label = if want.0 { "inherit".into() } else if want.1.is_empty() { "missing".into() } else { format!("{} units", want.1.len()) };
+                    let who = if n == 1 { String::new() } else { format!("live builder #{k} of {n}: ") };
+                    let before = r.fails.len();
+                    let built = b.into_tbs(d, fam).into_cert(&d.signer, &Kid(0)).map_err(|e| format!("{who}{e}"))?;
+                    let Some((bytes, decoded)) = twin(&mut r, &built, |c| c.to_captured().as_slice().to_vec(), |x| Cert::decode(x).map_err(|e| e.to_string()), obs_cert) else { continue };
+                    if let Err(e) = validate_cert(d, CKind::Ca, &decoded, d.instants[1]) { r.fail("validate", format!("decoded twin: {e}")) }
+                    if let Err(e) = validate_cert(d, CKind::Ca, &built, d.instants[1]) { r.fail("validate", format!("built value: {e}")) }
+                    for (what, t) in [("built", &built), ("decoded", &decoded)] {
+                        let got = seq_res_units(t, fam);
+                        if got != want { r.fail("model", format!("the {what} certificate says inherit={} units={:?}; the operations amount to inherit={} units={:?}", got.0, got.1, want.0, want.1)) }
+                    }
+                    let mut sorted = m.clone(); if let Some(l) = sorted.as_mut() { l.sort_by_key(|&i| SEQ_RES_BLOCKS[i]); }
+                    let f = fresh.get(&format!("{fam:?}{sorted:?}"), || { let mut fb = ResB::new(fam);
+                        match &sorted { None => fb.inherit(), Some(l) => if !l.is_empty() { fb.blocks(fam, l, false) } }
+                        Ok(fb.into_tbs(d, fam).into_cert(&d.signer, &Kid(0)).map_err(|e| e.to_string())?.to_captured().as_slice().to_vec()) })?;
+                    history_check(&mut r, &f, &bytes);
+                    for x in r.fails[before..].iter_mut() { x.1 = format!("{who}{}", x.1) }
+                }
+                Ok(())
+            });
+            match res { Ok(Ok(())) => {}, Ok(Err(e)) => r.fail("build", e), Err(p) => r.fail("build", p) }
+            r
+        });
+    sp.done(true, &format!("{} operation sequences: 3 families x every sequence of length <= {depth} over {} operations", cases.len(), ops.len()));
+}
+
+//------------ TbsCert: resource setters, sub-builders, clones ----------------
+
+#[derive(Clone, Copy, Debug)]
+enum CertOp { Missing(Fam), Inherit(Fam), FromIter(Fam), Build(Fam), BuildEmpty(Fam), Serial, Observe, CloneOn, CloneOff }
+
+#[derive(Clone, Debug)]
+struct CertModel { res: [ResCh; 3], serial: usize }
+
+/// atoms handed to `*_resources_from_iter`: unsorted, one twice, a and b adjacent
+const SEQ_FROM_ITER: [usize; 4] = [2, 0, 0, 1];
+/// atoms pushed inside `build_*_resource_blocks`: in descending order
+const SEQ_BUILD: [usize; 2] = [3, 1];
+
+fn fam_ix(f: Fam) -> usize { match f { Fam::V4 => 0, Fam::V6 => 1, Fam::As => 2 } }
+fn raw_ip(f: Fam, i: usize) -> IpBlock { if f == Fam::V4 { pki::ip_blocks(32, &[v4_atoms()[i]]).iter().next().unwrap() } else { pki::ip_blocks(128, &[v6_atoms()[i]]).iter().next().unwrap() } }
+fn raw_as(i: usize) -> AsBlock { pki::as_blocks(&[as_atoms()[i]]).iter().next().unwrap() }
+
+fn space_seq_cert(ctx: &Ctx, d: &Dom) {
+    let depth = ctx.tier.pick(3usize, 4usize);
+    let sp = ctx.space("builder.sequences.cert", &format!("TbsCert (CA): start from {{TbsCert::new + setters, the TbsCert cloned out of a decoded certificate}} then every sequence of <= {depth} operations out of {{per family (IPv4, AS: all five; IPv6: three): set_*_resources(missing), set_*_resources_inherit(), *_resources_from_iter([c, a, a, b]: unsorted, one atom twice, a and b adjacent), build_*_resource_blocks(push d, b: descending), build_*_resource_blocks(|_| ()); set_serial_number; every read accessor; clone continuing on the copy / on the original}}, then into_cert -> Cert::decode -> validate_ca_at for every live value; a certificate left without any resources is not finalized (outside the profile); the twin is built by CertSpec (TbsCert::new + set_*_resources(collected blocks)) from the final content; outcome = resource choice per family{SEQ_RULE_TAIL}"));
+    use Fam::*;
+    let ops = [CertOp::Missing(V4), CertOp::Inherit(V4), CertOp::FromIter(V4), CertOp::Build(V4), CertOp::BuildEmpty(V4), CertOp::Inherit(V6), CertOp::FromIter(V6), CertOp::Missing(V6),
+        CertOp::Missing(As), CertOp::Inherit(As), CertOp::FromIter(As), CertOp::Build(As), CertOp::BuildEmpty(As), CertOp::Serial, CertOp::Observe, CertOp::CloneOn, CertOp::CloneOff];
+    let cases = seq_cases(2, ops.len(), depth, |_| false);
+    let fresh = Fresh::new();
+    let base = CertSpec::base(CKind::Ca);
+    let spec_of = |m: &CertModel| CertSpec { v4: m.res[0].clone(), v6: m.res[1].clone(), asn: m.res[2].clone(), serial: m.serial, ..base.clone() };
+    let key = |m: &CertModel| format!("{} {} {} {}", m.res[0].wit(), m.res[1].wit(), m.res[2].wit(), m.serial);
+    let decoded_start: TbsCert = { let c = base.build(d).into_cert(&d.signer, &Kid(0)).expect("base certificate"); let t = Cert::decode(c.to_captured().as_slice()).expect("base certificate decodes"); let x: &TbsCert = t.as_ref(); x.clone() };
+    run_cases(ctx, &sp, "sequences.cert", &cases,
+        |c| format!("TbsCert {}{} -> into_cert", if c.ctor == 0 { "new + setters" } else { "cloned from a decoded certificate" }, c.path.iter().map(|&i| format!(" -> {:?}", ops[i])).collect::<String>()),
+        |c| {
+            let mut r = CaseResult::default();
+            let res = guard(|| -> Result<(), String> {
+                let start = if c.ctor == 0 { base.build(d) } else { decoded_start.clone() };
+                let mut lives = Lives::new(start, CertModel { res: [base.v4.clone(), base.v6.clone(), base.asn.clone()], serial: base.serial });
+                seq_state(&mut r, &key(lives.m()), false);
+                for &i in &c.path {
+                    let set = |m: &mut CertModel, f: Fam, ch: ResCh| m.res[fam_ix(f)] = ch;
+                    match ops[i] {
+                        CertOp::Missing(f) => { match f { V4 => lives.b().set_v4_resources(IpResources::missing()), V6 => lives.b().set_v6_resources(IpResources::missing()), As => lives.b().set_as_resources(AsResources::missing()) }
+                            set(lives.m(), f, ResCh::Missing) }
+                        CertOp::Inherit(f) => { match f { V4 => lives.b().set_v4_resources_inherit(), V6 => lives.b().set_v6_resources_inherit(), As => lives.b().set_as_resources_inherit() }
+                            set(lives.m(), f, ResCh::Inherit) }
+                        CertOp::FromIter(f) => { match f { V4 => lives.b().v4_resources_from_iter(SEQ_FROM_ITER.iter().map(|&i| raw_ip(V4, i))), V6 => lives.b().v6_resources_from_iter(SEQ_FROM_ITER.iter().map(|&i| raw_ip(V6, i))),
+                                As => lives.b().as_resources_from_iter(SEQ_FROM_ITER.iter().map(|&i| raw_as(i))) }
+                            set(lives.m(), f, ResCh::Blocks(vec![0, 1, 2])) }
+                        CertOp::Build(f) => { match f { V4 => lives.b().build_v4_resource_blocks(|b| for &i in &SEQ_BUILD { b.push(raw_ip(V4, i)) }), V6 => lives.b().build_v6_resource_blocks(|b| for &i in &SEQ_BUILD { b.push(raw_ip(V6, i)) }),
+                                As => lives.b().build_as_resource_blocks(|b| for &i in &SEQ_BUILD { b.push(raw_as(i)) }) }
+                            set(lives.m(), f, ResCh::Blocks(vec![1, 3])) }
+                        CertOp::BuildEmpty(f) => { match f { V4 => lives.b().build_v4_resource_blocks(|_| ()), V6 => lives.b().build_v6_resource_blocks(|_| ()), As => lives.b().build_as_resource_blocks(|_| ()) }
+                            set(lives.m(), f, ResCh::Missing) }
+                        CertOp::Serial => { let s = if lives.m().serial == 3 { 5 } else { 3 }; lives.b().set_serial_number(d.serials[s].1); lives.m().serial = s }
+                        CertOp::Observe => { let want = spec_of(lives.m()).build(d);
+                            if let Some(x) = diff_l(&obs_tbs(&want), &obs_tbs(lives.b()), "built directly", "after this sequence") { r.fail("history_independent", format!("TbsCert accessors: {x}")) } }
+                        CertOp::CloneOn | CertOp::CloneOff => { let copy = lives.b().clone(); lives.fork(copy, matches!(ops[i], CertOp::CloneOn)) }
+                    }
+                    seq_state(&mut r, &key(lives.m()), true);
+                }
+                let n = lives.v.len();
+                for (k, (b, m)) in lives.v.into_iter().enumerate() {
+                    let spec = spec_of(&m);
+                    r.label = format!("v4{} v6{} as{}", spec.v4.class(), spec.v6.class(), spec.asn.class());
+                    if !spec.conforming() { r.label = "no resources at all (outside the profile): not finalized".into(); continue }
+                    let who = if n == 1 { String::new() } else { format!("live value #{k} of {n}: ") };
+                    let before = r.fails.len();
+                    let built = b.into_cert(&d.signer, &Kid(0)).map_err(|e| format!("{who}{e}"))?;
+                    let Some((bytes, decoded)) = twin(&mut r, &built, |c| c.to_captured().as_slice().to_vec(), |x| Cert::decode(x).map_err(|e| e.to_string()), obs_cert) else { continue };
+                    if let Err(e) = validate_cert(d, CKind::Ca, &decoded, d.instants[1]) { r.fail("validate", format!("decoded twin: {e}")) }
+                    if let Err(e) = validate_cert(d, CKind::Ca, &built, d.instants[1]) { r.fail("validate", format!("built value: {e}")) }
+                    let want = (r_ipres(&pki::ip_res(32, &spec.v4.claim(&v4_atoms())), true), r_ipres(&pki::ip_res(128, &spec.v6.claim(&v6_atoms())), false), r_asres(&pki::as_res(&spec.asn.claim(&as_atoms()))), d.serials[m.serial].1);
+                    let got = (r_ipres(decoded.v4_resources(), true), r_ipres(decoded.v6_resources(), false), r_asres(decoded.as_resources()), decoded.serial_number());
+                    if got != want { r.fail("model", format!("the decoded certificate holds {got:?}; the operations amount to {want:?}")) }
+                    let f = fresh.get(&key(&m), || Ok(spec.build(d).into_cert(&d.signer, &Kid(0)).map_err(|e| e.to_string())?.to_captured().as_slice().to_vec()))?;
+                    history_check(&mut r, &f, &bytes);
+                    for x in r.fails[before..].iter_mut() { x.1 = format!("{who}{}", x.1) }
+                }
+                Ok(())
+            });
+            match res { Ok(Ok(())) => {}, Ok(Err(e)) => r.fail("build", e), Err(p) => r.fail("build", p) }
+            r
+        });
+    sp.done(true, &format!("{} operation sequences: 2 starting points x every sequence of length <= {depth} over {} operations", cases.len(), ops.len()));
+}
+
+//------------ SignedObjectBuilder ---------------------------------------------
+
+#[derive(Clone, Copy, Debug)]
+enum SoOp { Inherit(Fam), Build(Fam), BuildEmpty(Fam), SigningTime, Issuer, SubjectNone, Observe, CloneOn, CloneOff }
+
+#[derive(Clone, Debug)]
+struct SoModel { res: [ResCh; 3], signing: usize, issuer: usize, subject: usize }
+
+fn space_seq_sigobj(ctx: &Ctx, d: &Dom) {
+    let depth = ctx.tier.pick(3usize, 4usize);
+    let sp = ctx.space("builder.sequences.sigobj", &format!("SignedObjectBuilder: start from {{new + setters, a clone of that}} then every sequence of <= {depth} operations out of {{IPv4: set_v4_resources_inherit, build_v4_resource_blocks(push d, b), build_v4_resource_blocks(|_| ()); AS: set_as_resources_inherit, build_as_resource_blocks(push d, b); IPv6: set_v6_resources_inherit; set_signing_time, set_issuer(Some), set_subject(None); every read accessor; clone continuing on the copy / on the original}}, then finalize (foreign content type) -> SignedObject::decode(strict) -> validate_at(both window ends) for every live builder; the twin is a builder set directly to the final content; outcome = resource choice per family{SEQ_RULE_TAIL}"));
+    use Fam::*;
+    let ops = [SoOp::Inherit(V4), SoOp::Build(V4), SoOp::BuildEmpty(V4), SoOp::Inherit(As), SoOp::Build(As), SoOp::Inherit(V6), SoOp::SigningTime, SoOp::Issuer, SoOp::SubjectNone, SoOp::Observe, SoOp::CloneOn, SoOp::CloneOff];
+    let cases = seq_cases(2, ops.len(), depth, |_| false);
+    let fresh = Fresh::new();
+    let so = SoSpec::base();
+    let start_model = SoModel { res: [ResCh::Blocks(vec![0, 2]), ResCh::Missing, ResCh::Blocks(vec![1])], signing: so.signing, issuer: so.issuer_name, subject: so.subject_name };
+    let direct = |m: &SoModel| { let mut b = SoSpec { signing: m.signing, issuer_name: m.issuer, subject_name: m.subject, ..so.clone() }.builder(d);
+        b.set_v4_resources(pki::ip_res(32, &m.res[0].claim(&v4_atoms()))); b.set_v6_resources(pki::ip_res(128, &m.res[1].claim(&v6_atoms()))); b.set_as_resources(pki::as_res(&m.res[2].claim(&as_atoms()))); b };
+    let key = |m: &SoModel| format!("{} {} {} {} {} {}", m.res[0].wit(), m.res[1].wit(), m.res[2].wit(), m.signing, m.issuer, m.subject);
+    let obs_sob = |b: &SignedObjectBuilder| { let mut o = Obs::new();
+        o.put("digest_algorithm", || format!("{:?}", b.digest_algorithm())); o.put("serial_number", || b.serial_number().to_string());
+        o.put("validity", || r_validity(b.validity())); o.put("issuer", || format!("{:?}", b.issuer().map(r_name))); o.put("subject", || format!("{:?}", b.subject().map(r_name)));
+        o.put("crl_uri", || r_rsync(Some(b.crl_uri()))); o.put("ca_issuer", || r_rsync(Some(b.ca_issuer()))); o.put("signed_object", || r_rsync(Some(b.signed_object())));
+        o.put("v4_resources", || r_ipres(b.v4_resources(), true)); o.put("v6_resources", || r_ipres(b.v6_resources(), false)); o.put("has_ip_resources", || b.has_ip_resources().to_string());
+        o.put("as_resources", || r_asres(b.as_resources())); o.put("signing_time", || r_time(b.signing_time())); o };
+    let ct = || Oid(Bytes::copy_from_slice(&der::oid(&[1, 2, 840, 113549, 1, 9, 16, 1, 35])[2..]));
+    let content = Bytes::from(der::seq(&[der::int_u(7)]));
+    run_cases(ctx, &sp, "sequences.sigobj", &cases,
+        |c| format!("SignedObjectBuilder {}{} -> finalize", if c.ctor == 0 { "new + setters" } else { "clone of new + setters" }, c.path.iter().map(|&i| format!(" -> {:?}", ops[i])).collect::<String>()),
+        |c| {
+            let mut r = CaseResult::default();
+            let signer = so.signer(d);
+            let res = guard(|| -> Result<(), String> {
+                let start = if c.ctor == 0 { direct(&start_model) } else { let b = direct(&start_model); let c2 = b.clone(); drop(b); c2 };
+                let mut lives = Lives::new(start, start_model.clone());
+                seq_state(&mut r, &key(lives.m()), false);
+                for &i in &c.path {
+                    match ops[i] {
+                        SoOp::Inherit(f) => { match f { V4 => lives.b().set_v4_resources_inherit(), V6 => lives.b().set_v6_resources_inherit(), As => lives.b().set_as_resources_inherit() } lives.m().res[fam_ix(f)] = ResCh::Inherit }
+                        SoOp::Build(f) => { match f { V4 => lives.b().build_v4_resource_blocks(|b| for &i in &SEQ_BUILD { b.push(raw_ip(V4, i)) }), V6 => lives.b().build_v6_resource_blocks(|b| for &i in &SEQ_BUILD { b.push(raw_ip(V6, i)) }),
+                                As => lives.b().build_as_resource_blocks(|b| for &i in &SEQ_BUILD { b.push(raw_as(i)) }) } lives.m().res[fam_ix(f)] = ResCh::Blocks(vec![1, 3]) }
+                        SoOp::BuildEmpty(f) => { match f { V4 => lives.b().build_v4_resource_blocks(|_| ()), V6 => lives.b().build_v6_resource_blocks(|_| ()), As => lives.b().build_as_resource_blocks(|_| ()) } lives.m().res[fam_ix(f)] = ResCh::Missing }
+                        SoOp::SigningTime => { let s = if lives.m().signing == 2 { 0 } else { 2 }; lives.b().set_signing_time(d.instants[s]); lives.m().signing = s }
+                        SoOp::Issuer => { let n = if lives.m().issuer == 1 { 2 } else { 1 }; lives.b().set_issuer(d.name_opt(n)); lives.m().issuer = n }
+                        SoOp::SubjectNone => { lives.b().set_subject(None); lives.m().subject = 0 }
+                        SoOp::Observe => { let want = direct(lives.m());
+                            if let Some(x) = diff_l(&obs_sob(&want), &obs_sob(lives.b()), "set directly", "after this sequence") { r.fail("history_independent", format!("builder accessors: {x}")) } }
+                        SoOp::CloneOn | SoOp::CloneOff => { let copy = lives.b().clone(); lives.fork(copy, matches!(ops[i], SoOp::CloneOn)) }
+                    }
+                    seq_state(&mut r, &key(lives.m()), true);
+                }
+                let n = lives.v.len();
+                for (k, (b, m)) in lives.v.into_iter().enumerate() {
+                    r.label = format!("v4{} v6{} as{}", m.res[0].class(), m.res[1].class(), m.res[2].class());
+                    let who = if n == 1 { String::new() } else { format!("live builder #{k} of {n}: ") };
+                    let before = r.fails.len();
+                    let built = b.finalize(ct(), content.clone(), &signer, &Kid(0)).map_err(|e| format!("{who}{e}"))?;
+                    let Some((bytes, decoded)) = twin(&mut r, &built, |s| cap(s.encode_ref()), |x| SignedObject::decode(x, true).map_err(|e| e.to_string()), obs_sigobj) else { continue };
+                    validate_signed(d, &mut r, &bytes, &so);
+                    let ee = decoded.cert();
+                    let want = (r_ipres(&pki::ip_res(32, &m.res[0].claim(&v4_atoms())), true), r_ipres(&pki::ip_res(128, &m.res[1].claim(&v6_atoms())), false), r_asres(&pki::as_res(&m.res[2].claim(&as_atoms()))), r_time(d.instants[m.signing]),
+                        r_name(&d.issuer_name(m.issuer, 0)), if m.subject == 0 { r_name(&d.signer.public(so.one_off).to_subject_name()) } else { r_name(&d.names[m.subject - 1]) });
+                    let got = (r_ipres(ee.v4_resources(), true), r_ipres(ee.v6_resources(), false), r_asres(ee.as_resources()), r_time(decoded.signing_time()), r_name(ee.issuer()), r_name(ee.subject()));
+                    if got != want { r.fail("model", format!("the decoded object holds {got:?}; the operations amount to {want:?}")) }
+                    let f = fresh.get(&key(&m), || Ok(cap(direct(&m).finalize(ct(), content.clone(), &signer, &Kid(0)).map_err(|e| e.to_string())?.encode_ref())))?;
+                    history_check(&mut r, &f, &bytes);
+                    for x in r.fails[before..].iter_mut() { x.1 = format!("{who}{}", x.1) }
+                }
+                Ok(())
+            });
+            match res { Ok(Ok(())) => {}, Ok(Err(e)) => r.fail("build", e), Err(p) => r.fail("build", p) }
+            r
+        });
+    sp.done(true, &format!("{} operation sequences: 2 starting points x every sequence of length <= {depth} over {} operations", cases.len(), ops.len()));
+}
+
+//------------ CA side: IdCert / Csr / SignedMessage creation calls ------------
+
+#[derive(Clone, Copy, Debug)]
+enum CaOp { NewTa(usize), NewEe(usize, usize), Csr(usize, bool), Msg(usize, usize) }
+
+/// One creation call, judged by the usual oracles; returns everything that is
+/// comparable between two evaluations (the octets, or for signed messages --
+/// whose signing time and CRL number are read from the wall clock inside the
+/// library -- content and verdict).
+fn ca_side_eval<S: Signer<KeyId = Kid>>(d: &Dom, r: &mut CaseResult, op: CaOp, signer: &S) -> Result<String, String> where S::Error: std::fmt::Display {
+    let now = d.instants[1];
+    match op {
+        CaOp::NewTa(k) => {
+            let built = IdCert::new_ta(d.validity((1, 3)), &Kid(k), signer).map_err(|e| e.to_string())?;
+            let Some((bytes, decoded)) = twin(r, &built, |m| m.to_captured().as_slice().to_vec(), |b| IdCert::decode(b).map_err(|e| e.to_string()), obs_idcert) else { return Ok("no twin".into()) };
+            if let Err(e) = decoded.validate_ta_at(now) { r.fail("validate", format!("IdCert::validate_ta_at: {e}")) }
+            Ok(hx(&bytes))
+        }
+        CaOp::NewEe(k, e) => {
+            let built = IdCert::new_ee(&d.signer.public(e), d.validity((1, 3)), &Kid(k), signer).map_err(|e| e.to_string())?;
+            let Some((bytes, decoded)) = twin(r, &built, |m| m.to_captured().as_slice().to_vec(), |b| IdCert::decode(b).map_err(|e| e.to_string()), obs_idcert) else { return Ok("no twin".into()) };
+            if let Err(e) = decoded.validate_ee_at(&d.signer.public(k), now) { r.fail("validate", format!("IdCert::validate_ee_at: {e}")) }
+            Ok(hx(&bytes))
+        }
+        CaOp::Csr(k, notify) => {
+            let bytes = Csr::construct_rpki_ca(signer, &Kid(k), &d.dirs[1], &d.mfts[1], if notify { d.https[2].as_ref() } else { None }).map_err(|e| e.to_string())?;
+            match RpkiCaCsr::decode(bytes.as_slice()) {
+                Ok(t) => { if t.to_captured().as_slice() != bytes.as_slice() { r.fail("reencode", "the decoded request re-encodes to other octets") }
+                           if let Err(e) = t.verify_signature() { r.fail("validate", format!("Csr::verify_signature: {e}")) }
+                           if t.rpki_notify().is_some() != notify || t.ca_repository() != Some(&d.dirs[1]) || t.rpki_manifest() != Some(&d.mfts[1]) { r.fail("model", "the decoded request carries other URIs than were handed in") } }
+                Err(e) => r.fail("decode", e.to_string()),
+            }
+            Ok(hx(bytes.as_slice()))
+        }
+        CaOp::Msg(k, p) => {
+            let payload: Bytes = if p == 0 { Bytes::from_static(b"<msg/>") } else { Bytes::from(vec![b'c'; 300]) };
+            let built = SignedMessage::create(payload.clone(), d.validity((1, 3)), &Kid(k), signer).map_err(|e| e.to_string())?;
+            let Some((_, decoded)) = twin(r, &built, |m| m.to_captured().as_slice().to_vec(), |b| SignedMessage::decode(b, true).map_err(|e| e.to_string()), obs_sigmsg) else { return Ok("no twin".into()) };
+            if decoded.content().to_bytes() != payload { r.fail("model", "the decoded message carries another payload than was handed in") }
+            let verdict = r_res(decoded.validate_at(&d.signer.public(k), now));
+            if verdict != "Ok" { r.fail("validate", format!("SignedMessage::validate_at: {verdict}")) }
+            Ok(format!("content={} verdict={verdict}", hx(&decoded.content().to_bytes())))
+        }
+    }
+}
+
+fn space_seq_ca_side(ctx: &Ctx, d: &Dom) {
+    let depth = ctx.tier.pick(3usize, 4usize);
+    let sp = ctx.space("builder.sequences.ca_side", &format!("IdCert::new_ta / IdCert::new_ee / Csr::construct_rpki_ca / SignedMessage::create (none of which has a multi-step builder): every sequence of <= {depth} creation calls on ONE signer and one thread out of {{new_ta under 2 keys, new_ee under 2 issuer / subject key pairs, a CA request with and without rpkiNotify, a signed message of 6 / 300 octets under 2 keys}}; every call is judged by decode / re-encode / accessor agreement / validation, and what it returns must be what the same call returns when it is the only one ever made (octets; for signed messages, whose signing time comes from the wall clock, content and verdict); non-trivial = sequences in which the judged call has at least one predecessor; outcome = kind of the last call"));
+    let ops = [CaOp::NewTa(0), CaOp::NewTa(6), CaOp::NewEe(0, 4), CaOp::NewEe(6, 0), CaOp::Csr(3, true), CaOp::Csr(1, false), CaOp::Msg(0, 0), CaOp::Msg(0, 1), CaOp::Msg(6, 0)];
+    let cases: Vec<SeqCase> = sequences(ops.len(), 1, depth).into_iter().map(|p| SeqCase { ctor: 0, path: p }).collect();
+    let alone: Vec<Result<String, String>> = on_fresh_threads(&ops, |op| { let mut r = CaseResult::default(); let signer = CaseSigner::with_rand(&d.signer, 7, d.serials[3].1);
+        match guard(|| ca_side_eval(d, &mut r, *op, &signer)) { Ok(x) => x, Err(p) => Err(format!("PANIC {p}")) } });
+    run_cases(ctx, &sp, "sequences.ca_side", &cases,
+        |c| c.path.iter().map(|&i| format!("{:?}", ops[i])).collect::<Vec<_>>().join(" -> "),
+        |c| {
+            let mut r = CaseResult::default();
+            let signer = CaseSigner::with_rand(&d.signer, 7, d.serials[3].1);
+            for (k, &i) in c.path.iter().enumerate() {
+                let got = match guard(|| ca_side_eval(d, &mut r, ops[i], &signer)) { Ok(x) => x, Err(p) => Err(format!("PANIC {p}")) };
+                seq_state(&mut r, &format!("{:?}", &c.path[..=k]), true);
+                if let Err(e) = &got { r.fail("build", format!("call #{} ({:?}): {e}", k + 1, ops[i])) }
+                if got != alone[i] { r.fail("history_independent", format!("call #{} ({:?}) returned {} after the calls before it, but {} when made alone", k + 1, ops[i],
+                    rpki_verif::trunc(&format!("{got:?}"), 160), rpki_verif::trunc(&format!("{:?}", alone[i]), 160))) }
+            }
+            // signed messages carry the wall clock: count sequences, not encodings
+            r.der_hash = if c.path.len() >= 2 { fnv(format!("{:?}", c.path).as_bytes()) } else { 0 };
+            r.label = match ops[*c.path.last().unwrap()] { CaOp::NewTa(_) => "IdCert TA", CaOp::NewEe(..) => "IdCert EE", CaOp::Csr(..) => "CA request", CaOp::Msg(..) => "signed message" }.to_string();
+            r
+        });
+    sp.done(true, &format!("{} sequences of length 1..={depth} over {} creation calls", cases.len(), ops.len()));
+}
+
+//============ Object-level history of the finished objects ===================
+//
+// State that lives inside one object (a cache filled by `cache_serials`, a
+// lazily built table, a verdict remembered by a validation) must never show:
+// for every object the builders return -- and for its decoded twin -- every
+// sequence of <= 3 (thorough 4) operations out of {each query, each caching
+// call, each validation on a copy, clone (continue on the copy with the
+// original kept / on the original with the copy kept)}; every answer must be
+// the answer the same operation gives first thing on a fresh copy, built
+// value and decoded twin must give the same answers, and the full observer
+// sweep afterwards must read as on a fresh copy, for every live object.
+
+struct HOp<'a, T> { name: String, caching: bool, f: Box<dyn Fn(&mut T) -> String + Sync + 'a> }
+fn hop<'a, T>(name: &str, f: impl Fn(&mut T) -> String + Sync + 'a) -> HOp<'a, T> { HOp { name: name.to_string(), caching: false, f: Box::new(f) } }
+
+struct HistTotals { seqs: u64, nontrivial: u64, ops: u64, states: BTreeSet<u64> }
+
+fn object_history<T: Clone + Sync + Send>(ctx: &Ctx, sp: &Space, kind: &str, subjects: &[(String, Option<T>, T)], ops: &[HOp<T>], sweep: &(dyn Fn(&T) -> String + Sync), depth: usize, tot: &mut HistTotals) {
+    let n = ops.len();
+    let oracle = format!("C05.object_history.{kind}");
+    let seqs = sequences(n + 2, 1, depth);
+    let name = |o: usize| if o < n { ops[o].name.clone() } else if o == n { "clone (continue on the copy)".to_string() } else { "clone (continue on the original)".to_string() };
+    let ask = |o: usize, x: &mut T| match guard(|| (ops[o].f)(x)) { Ok(a) => a, Err(p) => format!("PANIC {p}") };
+    for (sname, built, decoded) in subjects {
+        let mut both: Vec<(&str, &T)> = vec![]; if let Some(b) = built { both.push(("built", b)) } both.push(("decoded", decoded));
+        // the answers on fresh copies; built value and twin must agree
+        let pristine: Vec<Vec<String>> = both.iter().map(|(_, x)| (0..n).map(|o| ask(o, &mut (*x).clone())).collect()).collect();
+        let sweeps: Vec<String> = both.iter().map(|(_, x)| match guard(|| sweep(*x)) { Ok(s) => s, Err(p) => format!("PANIC {p}") }).collect();
+        for o in 0..n {
+            if pristine.iter().any(|p| p[o].starts_with("PANIC")) || pristine.iter().any(|p| p[o] != pristine[0][o]) {
+                ctx.fail(&format!("{oracle}.twin"), format!("{kind} {sname}: {}", ops[o].name), format!("answers on fresh copies: {}", both.iter().zip(pristine.iter()).map(|((w, _), p)| format!("{w}={}", rpki_verif::trunc(&p[o], 160))).collect::<Vec<_>>().join(" ")));
+            }
+        }
+        if sweeps.iter().any(|s| s.starts_with("PANIC") || *s != sweeps[0]) { ctx.fail(&format!("{oracle}.twin"), format!("{kind} {sname}: observer sweep"), "the built value and its decoded twin read differently".to_string()) }
+        for (wi, (who, x)) in both.iter().enumerate() {
+            tot.states.insert(fnv(format!("{kind} {sname} {who} {}", sweeps[wi]).as_bytes()));
+            let fails: Vec<Option<(String, String)>> = seqs.par_iter().map(|seq| {
+                let wit = || format!("{kind} {sname} ({who}): {}", seq.iter().map(|&o| name(o)).collect::<Vec<_>>().join(" -> "));
+                let mut lives: Vec<T> = vec![(*x).clone()]; let mut active = 0usize;
+                for (k, &o) in seq.iter().enumerate() {
+                    if o == n { let c = lives[active].clone(); lives.push(c); active = lives.len() - 1 }
+                    else if o == n + 1 { let c = lives[active].clone(); lives.push(c) }
+                    else {
+                        let a = ask(o, &mut lives[active]);
+                        if a != pristine[wi][o] { return Some((wit(), format!("operation #{} ({}) answered {} after this history, but {} when asked first thing on a fresh copy", k + 1, ops[o].name, rpki_verif::trunc(&a, 200), rpki_verif::trunc(&pristine[wi][o], 200)))) }
+                    }
+                }
+                for (k, l) in lives.iter().enumerate() {
+                    let s = match guard(|| sweep(l)) { Ok(s) => s, Err(p) => format!("PANIC {p}") };
+                    if s != sweeps[wi] {
+                        let (a, b): (Vec<&str>, Vec<&str>) = (s.lines().collect(), sweeps[wi].lines().collect());
+                        let first = a.iter().zip(b.iter()).find(|(x, y)| x != y).map(|(x, y)| format!("{} <> {}", rpki_verif::trunc(x, 200), rpki_verif::trunc(y, 200))).unwrap_or_else(|| format!("{} lines <> {} lines", a.len(), b.len()));
+                        return Some((wit(), format!("after this history the observer sweep of live object #{k} reads differently from a fresh copy's: {first}")))
+                    }
+                }
+                None
+            }).collect();
+            for f in fails.into_iter().flatten() { ctx.fail(&oracle, f.0, f.1) }
+            tot.seqs += seqs.len() as u64;
+            tot.ops += seqs.iter().map(|s| s.len() as u64).sum::<u64>();
+            // non-trivial: a caching call or a clone comes before at least one query
+            tot.nontrivial += seqs.iter().filter(|s| s.iter().enumerate().any(|(k, &o)| (o >= n || ops[o].caching) && k + 1 < s.len())).count() as u64;
+            sp.outcomes_n(&format!("{kind} {who}"), seqs.len() as u64);
+        }
+    }
+    if let Some(s) = seqs.last() { sp.sample_str(|| format!("{kind}: {}", s.iter().map(|&o| name(o)).collect::<Vec<_>>().join(" -> "))) }
+}
+
+fn space_object_history(ctx: &Ctx, d: &Dom) {
+    let depth = ctx.tier.pick(3usize, 4usize);
+    let sp = ctx.space("object.history", &format!("every finished object the builders return and its decoded twin -- CRLs over 6 revocation-list forms (empty, one entry, sorted, reverse-sorted, unsorted, one serial twice), a CA certificate, a manifest, a ROA, an ASPA, a bare signed object, an identity certificate, a signed message, a decoded CA request: every sequence of <= {depth} operations out of {{each query (contains for serials present first / last in list order, absent between / above; iterators; encoders), each caching call (Crl::cache_serials), each validation (on a copy, at a fixed instant), clone continuing on the copy / on the original}}; every answer must be the one given first thing on a fresh copy, for CRLs also the model's (serial on the list or not), built value and twin must answer alike, and the full observer sweep of every live object afterwards must read as on a fresh copy; non-trivial = sequences in which a caching call or a clone precedes a query; outcome = object kind x built / decoded"));
+    let signer = CaseSigner::new(&d.signer, 7);
+    let so = SoSpec::base();
+    let base_uri = d.dirs[1].clone();
+    let now = d.instants[1];
+    let mut tot = HistTotals { seqs: 0, nontrivial: 0, ops: 0, states: BTreeSet::new() };
+    let setup = guard(|| -> Result<(), String> {
+        // ---- CRLs
+        let forms: Vec<(&str, Vec<usize>)> = vec![("empty", vec![]), ("one entry", vec![3]), ("sorted", vec![1, 3, 4]), ("reverse-sorted", vec![4, 3, 1]), ("unsorted", vec![3, 4, 0, 1]), ("one serial twice", vec![4, 3, 6])];
+        let probes: Vec<Serial> = SEQ_CRL_PROBES.iter().map(|&p| Serial::from(p)).collect();
+        let mut subj: Vec<(String, Option<Crl>, Crl)> = vec![];
+        for (nm, l) in &forms {
+            let c = TbsCertList::new(RpkiSignatureAlgorithm::default(), d.issuer_name(1, 0), d.instants[1], d.instants[3], l.iter().map(|&i| seq_crl_entry(d, i)).collect::<Vec<CrlEntry>>(),
+                d.signer.public(0).key_identifier(), d.serials[3].1).into_crl(&d.signer, &Kid(0)).map_err(|e| e.to_string())?;
+            let t = Crl::decode(c.to_captured().as_slice()).map_err(|e| format!("the library's decoder refuses a CRL it built: {e}"))?;
+            // the model, independent of any history
+            let serials: BTreeSet<u64> = l.iter().map(|&i| SEQ_CRL_ENT[i].0).collect();
+            let mut r = CaseResult::default();
+            crl_contains_model(&mut r, "built CRL", &c, &serials); crl_contains_model(&mut r, "decoded twin", &t, &serials);
+            for (_, x) in r.fails { ctx.fail("C05.object_history.crl.model", format!("crl revoked={:?} ({nm})", l.iter().map(|&i| SEQ_CRL_ENT[i].0).collect::<Vec<_>>()), x) }
+            subj.push((format!("revoked={:?} ({nm})", l.iter().map(|&i| SEQ_CRL_ENT[i].0).collect::<Vec<_>>()), Some(c), t));
+        }
+        let mut ops: Vec<HOp<Crl>> = vec![];
+        for p in [50u64, 90, 10, 60, 99] { ops.push(hop(&format!("contains({p})"), move |c: &mut Crl| c.contains(Serial::from(p)).to_string())) }
+        for p in [90u64, 35] { ops.push(hop(&format!("revoked_certs().contains({p})"), move |c: &mut Crl| c.revoked_certs().contains(Serial::from(p)).to_string())) }
+        ops.push(HOp { name: "cache_serials()".into(), caching: true, f: Box::new(|c: &mut Crl| { c.cache_serials(); String::new() }) });
+        ops.push(hop("revoked_certs().iter()", |c: &mut Crl| c.revoked_certs().iter().map(r_crl_entry).collect::<Vec<_>>().join(",")));
+        ops.push(hop("to_captured()", |c: &mut Crl| hx(c.to_captured().as_slice())));
+        ops.push(hop("verify_signature(key)", |c: &mut Crl| r_res(c.verify_signature(&d.signer.public(0)))));
+        ops.push(hop("crl_number() / is_stale()", |c: &mut Crl| format!("{} {}", c.crl_number(), c.is_stale())));
+        object_history(ctx, &sp, "crl", &subj, &ops, &|c: &Crl| obs_text(&obs_crl(c, &probes)), depth, &mut tot);
+
+        // ---- a CA certificate
+        let cert = CertSpec { v4: ResCh::Blocks(vec![3, 0, 2]), v6: ResCh::Blocks(vec![1, 3]), asn: ResCh::Blocks(vec![2, 0, 3]), ..CertSpec::base(CKind::Ca) }.build(d).into_cert(&d.signer, &Kid(0)).map_err(|e| e.to_string())?;
+        let cert_t = Cert::decode(cert.to_captured().as_slice()).map_err(|e| format!("the library's decoder refuses a certificate it built: {e}"))?;
+        let rc = |x: Result<ResourceCert, String>| match x { Ok(rc) => obs_text(&obs_rescert(&rc)), Err(e) => format!("Err({e})") };
+        let ops: Vec<HOp<Cert>> = vec![
+            hop("to_captured()", |c: &mut Cert| hx(c.to_captured().as_slice())),
+            hop("inspect_ca(strict)", |c: &mut Cert| r_res(c.inspect_ca(true))),
+            hop("inspect_ee(strict)", |c: &mut Cert| r_res(c.inspect_ee(true))),
+            hop("verify_validity(t)", move |c: &mut Cert| r_res(c.verify_validity(now))),
+            hop("clone().validate_ca_at(ta, t)", move |c: &mut Cert| rc(c.clone().validate_ca_at(&d.ta, true, now).map_err(|e| e.to_string()))),
+            hop("clone().validate_ee_at(ta, t)", move |c: &mut Cert| rc(c.clone().validate_ee_at(&d.ta, true, now).map_err(|e| e.to_string()))),
+            hop("v4_resources().to_blocks()", |c: &mut Cert| r_ipres(c.v4_resources(), true)),
+            hop("as_resources()", |c: &mut Cert| r_asres(c.as_resources())),
+            hop("subject_key_identifier() / is_self_signed()", |c: &mut Cert| format!("{} {}", c.subject_key_identifier(), c.is_self_signed())),
+        ];
+        object_history(ctx, &sp, "cert", &[("CA certificate".to_string(), Some(cert), cert_t)], &ops, &|c: &Cert| obs_text(&obs_cert(c)), depth, &mut tot);
+
+        // ---- a manifest
+        let files = mft_files();
+        let mft = ManifestContent::new(d.serials[3].1, d.instants[1], d.instants[3], DigestAlgorithm::sha256(), [0usize, 3, 1].iter().map(|&i| FileAndHash::new(files[i].0.clone(), files[i].1.clone())))
+            .into_manifest(so.builder(d), &signer, &Kid(0)).map_err(|e| e.to_string())?;
+        let mft_t = Manifest::decode(mft.to_captured().as_slice(), true).map_err(|e| format!("the library's decoder refuses a manifest it built: {e}"))?;
+        let bu = &base_uri;
+        let ops: Vec<HOp<Manifest>> = vec![
+            hop("content().len() / is_empty()", |m: &mut Manifest| format!("{} {}", m.content().len(), m.content().is_empty())),
+            hop("content().iter()", |m: &mut Manifest| m.content().iter().map(|f| format!("{}={}", hex(f.file()), hex(f.hash()))).collect::<Vec<_>>().join(",")),
+            hop("content().iter_uris(base)", move |m: &mut Manifest| m.content().iter_uris(bu).map(|(u, h)| format!("{u}={}", hex(h.as_slice()))).collect::<Vec<_>>().join(",")),
+            hop("content().encode_ref()", |m: &mut Manifest| hx(&cap(m.content().encode_ref()))),
+            hop("to_captured()", |m: &mut Manifest| hx(m.to_captured().as_slice())),
+            hop("clone().validate_at(ta, t)", move |m: &mut Manifest| match m.clone().validate_at(&d.ta, true, now) { Ok((rc, c)) => format!("Ok {} {}", hx(rc.as_cert().to_captured().as_slice()), hx(&cap(c.encode_ref()))), Err(e) => format!("Err({e})") }),
+            hop("cert().to_captured()", |m: &mut Manifest| hx(m.cert().to_captured().as_slice())),
+        ];
+        object_history(ctx, &sp, "manifest", &[("3 files".to_string(), Some(mft), mft_t)], &ops, &|m: &Manifest| obs_text(&obs_manifest(m, bu)), depth, &mut tot);
+
+        // ---- a ROA
+        let a4 = roa_alphabet(true); let a6 = roa_alphabet(false);
+        let roa = { let mut b = RoaBuilder::new(asn_of(65536)); for i in [1usize, 0, 7] { b.push_v4(a4[i]) } for i in [9usize, 3] { b.push_v6(a6[i]) } b.finalize(so.builder(d), &signer, &Kid(0)).map_err(|e| e.to_string())? };
+        let roa_t = Roa::decode(roa.to_captured().as_slice(), true).map_err(|e| format!("the library's decoder refuses a ROA it built: {e}"))?;
+        let ops: Vec<HOp<Roa>> = vec![
+            hop("content().iter()", |x: &mut Roa| x.content().iter().map(|f| f.to_string()).collect::<Vec<_>>().join(",")),
+            hop("content().iter_origins()", |x: &mut Roa| x.content().iter_origins().map(|f| format!("{f:?}")).collect::<Vec<_>>().join(",")),
+            hop("content().v4_addrs().iter()", |x: &mut Roa| r_roa_addrs(x.content().v4_addrs())),
+            hop("content().v6_addrs().is_empty()", |x: &mut Roa| x.content().v6_addrs().is_empty().to_string()),
+            hop("content().encode_ref()", |x: &mut Roa| hx(&cap(x.content().encode_ref()))),
+            hop("to_captured()", |x: &mut Roa| hx(x.to_captured().as_slice())),
+            hop("clone().process(ta)", |x: &mut Roa| match x.clone().process(&d.ta, true, |_| Ok(())) { Ok((rc, c)) => format!("Ok {} {}", hx(rc.as_cert().to_captured().as_slice()), hx(&cap(c.encode_ref()))), Err(e) => format!("Err({e})") }),
+        ];
+        object_history(ctx, &sp, "roa", &[("3 + 2 prefixes".to_string(), Some(roa), roa_t)], &ops, &|x: &Roa| obs_text(&obs_roa(x)), depth, &mut tot);
+
+        // ---- an ASPA
+        let aspa = AspaBuilder::new(asn_of(0), vec![asn_of(65536), asn_of(1), asn_of(4294967295)]).map_err(|e| e.to_string())?.finalize(so.builder(d), &signer, &Kid(0)).map_err(|e| e.to_string())?;
+        let aspa_t = Aspa::decode(aspa.to_captured().as_slice(), true).map_err(|e| format!("the library's decoder refuses an ASPA it built: {e}"))?;
+        let ops: Vec<HOp<Aspa>> = vec![
+            hop("provider_as_set().iter()", |x: &mut Aspa| x.content().provider_as_set().iter().map(|a| a.to_string()).collect::<Vec<_>>().join(",")),
+            hop("provider_as_set().len()", |x: &mut Aspa| x.content().provider_as_set().len().to_string()),
+            hop("provider_as_set().to_set()", |x: &mut Aspa| { let s = x.content().provider_as_set().to_set(); format!("{} [{}]", s.len(), s.iter().map(|a| a.to_string()).collect::<Vec<_>>().join(",")) }),
+            hop("customer_as() / as_resources()", |x: &mut Aspa| format!("{} {}", x.content().customer_as(), r_asres(&x.content().as_resources()))),
+            hop("content().encode_ref()", |x: &mut Aspa| hx(&cap(x.content().encode_ref()))),
+            hop("to_captured()", |x: &mut Aspa| hx(x.to_captured().as_slice())),
+            hop("clone().process(ta)", |x: &mut Aspa| match x.clone().process(&d.ta, true, |_| Ok(())) { Ok((rc, c)) => format!("Ok {} {}", hx(rc.as_cert().to_captured().as_slice()), hx(&cap(c.encode_ref()))), Err(e) => format!("Err({e})") }),
+        ];
+        object_history(ctx, &sp, "aspa", &[("3 providers".to_string(), Some(aspa), aspa_t)], &ops, &|x: &Aspa| obs_text(&obs_aspa(x)), depth, &mut tot);
+
+        // ---- a bare signed object
+        let sobj = { let mut b = so.builder(d); b.set_as_resources_inherit();
+            b.finalize(Oid(Bytes::copy_from_slice(&der::oid(&[1, 2, 840, 113549, 1, 9, 16, 1, 35])[2..])), Bytes::from(der::seq(&[der::int_u(7)])), &signer, &Kid(0)).map_err(|e| e.to_string())? };
+        let sobj_t = SignedObject::decode(cap(sobj.encode_ref()).as_slice(), true).map_err(|e| format!("the library's decoder refuses a signed object it built: {e}"))?;
+        let ops: Vec<HOp<SignedObject>> = vec![
+            hop("content()", |x: &mut SignedObject| hx(&x.content().to_bytes())),
+            hop("content_type() / signing_time()", |x: &mut SignedObject| format!("{} {}", x.content_type(), r_time(x.signing_time()))),
+            hop("decode_content(capture_all)", |x: &mut SignedObject| r_res(x.decode_content(|cons| cons.capture_all()).map(|c| c.len()))),
+            hop("encode_ref()", |x: &mut SignedObject| hx(&cap(x.encode_ref()))),
+            hop("clone().validate_at(ta, t)", move |x: &mut SignedObject| match x.clone().validate_at(&d.ta, true, now) { Ok(rc) => obs_text(&obs_rescert(&rc)), Err(e) => format!("Err({e})") }),
+            hop("cert().to_captured()", |x: &mut SignedObject| hx(x.cert().to_captured().as_slice())),
+        ];
+        object_history(ctx, &sp, "sigobj", &[("foreign content type".to_string(), Some(sobj), sobj_t)], &ops, &|x: &SignedObject| obs_text(&obs_sigobj(x)), depth, &mut tot);
+
+        // ---- CA side: identity certificate, signed message, CA request
+        let idc = IdCert::new_ee(&d.signer.public(4), d.validity((1, 3)), &Kid(0), &signer).map_err(|e| e.to_string())?;
+        let idc_t = IdCert::decode(idc.to_captured().as_slice()).map_err(|e| format!("the library's decoder refuses an identity certificate it built: {e}"))?;
+        let ops: Vec<HOp<IdCert>> = vec![
+            hop("to_captured()", |x: &mut IdCert| hx(x.to_captured().as_slice())),
+            hop("to_bytes()", |x: &mut IdCert| hx(&x.to_bytes())),
+            hop("validate_ee_at(key, t)", move |x: &mut IdCert| r_res(x.validate_ee_at(&d.signer.public(0), now))),
+            hop("validate_ta_at(t)", move |x: &mut IdCert| r_res(x.validate_ta_at(now))),
+            hop("verify_validity(t)", move |x: &mut IdCert| r_res(x.verify_validity(now))),
+            hop("subject_key_id() / authority_key_id()", |x: &mut IdCert| format!("{} {:?}", x.subject_key_id(), x.authority_key_id())),
+            hop("public_key()", |x: &mut IdCert| r_key(x.public_key())),
+        ];
+        object_history(ctx, &sp, "idcert", &[("EE".to_string(), Some(idc), idc_t)], &ops, &|x: &IdCert| obs_text(&obs_idcert(x)), depth, &mut tot);
+
+        let msg = SignedMessage::create(Bytes::from_static(b"<msg/>"), d.validity((1, 3)), &Kid(0), &signer).map_err(|e| e.to_string())?;
+        let msg_t = SignedMessage::decode(msg.to_captured().as_slice(), true).map_err(|e| format!("the library's decoder refuses a signed message it built: {e}"))?;
+        let ops: Vec<HOp<SignedMessage>> = vec![
+            hop("content()", |x: &mut SignedMessage| hx(&x.content().to_bytes())),
+            hop("content_type()", |x: &mut SignedMessage| x.content_type().to_string()),
+            hop("to_captured()", |x: &mut SignedMessage| hx(x.to_captured().as_slice())),
+            hop("validate_at(key, t)", move |x: &mut SignedMessage| r_res(x.validate_at(&d.signer.public(0), now))),
+            hop("validate_at(another key, t)", move |x: &mut SignedMessage| r_res(x.validate_at(&d.signer.public(3), now))),
+            hop("validate_at(key, outside the window)", |x: &mut SignedMessage| r_res(x.validate_at(&d.signer.public(0), d.instants[4]))),
+        ];
+        object_history(ctx, &sp, "sigmsg", &[("6 octets".to_string(), Some(msg), msg_t)], &ops, &|x: &SignedMessage| obs_text(&obs_sigmsg(x)), depth, &mut tot);
+
+        let csr_bytes = Csr::construct_rpki_ca(&d.signer, &Kid(3), &d.dirs[1], &d.mfts[1], d.https[2].as_ref()).map_err(|e| e.to_string())?;
+        let csr = RpkiCaCsr::decode(csr_bytes.as_slice()).map_err(|e| format!("the library's decoder refuses a CA request it built: {e}"))?;
+        let ops: Vec<HOp<RpkiCaCsr>> = vec![
+            hop("verify_signature()", |x: &mut RpkiCaCsr| r_res(x.verify_signature())),
+            hop("to_captured()", |x: &mut RpkiCaCsr| hx(x.to_captured().as_slice())),
+            hop("ca_repository() / rpki_manifest() / rpki_notify()", |x: &mut RpkiCaCsr| format!("{} {} {}", r_rsync(x.ca_repository()), r_rsync(x.rpki_manifest()), r_https(x.rpki_notify()))),
+            hop("public_key() / subject()", |x: &mut RpkiCaCsr| format!("{} {}", r_key(x.public_key()), r_name(x.subject()))),
+            hop("basic_ca() / key_usage()", |x: &mut RpkiCaCsr| format!("{} {:?}", x.basic_ca(), x.key_usage())),
+        ];
+        object_history(ctx, &sp, "csr", &[("CA request".to_string(), None, csr)], &ops, &|x: &RpkiCaCsr| obs_text(&obs_csr(x)), depth, &mut tot);
+        Ok(())
+    });
+    match setup { Ok(Ok(())) => {}, Ok(Err(e)) | Err(e) => ctx.fail("C05.object_history.build", "the representative objects of the object-history space", e) }
+    sp.evals(tot.seqs.max(1)); sp.nontrivial(tot.nontrivial); sp.traces(tot.seqs); sp.transitions(tot.ops); sp.states(tot.states.len() as u64);
+    sp.done(true, &format!("{} operation sequences of length <= {depth} ({} operations applied) on {} objects (built values and decoded twins), each of which stayed in its one observable state", tot.seqs, tot.ops, tot.states.len()));
+}
+
 fn main() {
     if std::env::var("C05_CHILD").as_deref() == Ok("subjects") {
         // child of the environment space: print the subjects' observations (hashed) and leave
@@ -3551,5 +4545,14 @@ fn main() {
     if want("chains") { space_chains(&ctx, &d) }
     if want("history") { space_history(&ctx, &d) }
     if want("usage") { space_usage(&ctx, &d) }
+    if want("sequences") || want("seq.aspa") { space_seq_aspa(&ctx, &d) }
+    if want("sequences") || want("seq.roa") { space_seq_roa(&ctx, &d) }
+    if want("sequences") || want("seq.manifest") { space_seq_manifest(&ctx, &d) }
+    if want("sequences") || want("seq.crl") { space_seq_crl(&ctx, &d) }
+    if want("sequences") || want("seq.resources") { space_seq_resources(&ctx, &d) }
+    if want("sequences") || want("seq.cert") { space_seq_cert(&ctx, &d) }
+    if want("sequences") || want("seq.sigobj") { space_seq_sigobj(&ctx, &d) }
+    if want("sequences") || want("seq.ca_side") { space_seq_ca_side(&ctx, &d) }
+    if want("objhist") { space_object_history(&ctx, &d) }
     ctx.finish();
 }
